@@ -1,1992 +1,4 @@
-/-
-  GENERATED at development time by tools/gen_c05_theorems.py (statements only follow a fixed
-  template; the proofs are checked by Lean like any other).  One theorem per instruction form:
-  the operations the real assembler emits (Generated/InstrOps.lean, regenerated on every run) refine
-  the instruction reference (Spec/Instr.lean) on every stack of depth >= 16, with every other
-  component of the machine state arbitrary.
--/
-import Miden.Lemmas.InstrTac
-namespace Miden.C05
-open Miden Miden.Spec
-
-theorem refines_assert : ∀ vm : Vm, 16 ≤ vm.stack.length →
-    Refines (stackRun Generated.ops_assert vm) (sem (.assert 0) vm.stack) := by
-  instr_tac Generated.ops_assert
-
-theorem refines_assertz : ∀ vm : Vm, 16 ≤ vm.stack.length →
-    Refines (stackRun Generated.ops_assertz vm) (sem (.assertz 0) vm.stack) := by
-  instr_tac Generated.ops_assertz
-
-theorem refines_assert_eq : ∀ vm : Vm, 16 ≤ vm.stack.length →
-    Refines (stackRun Generated.ops_assert_eq vm) (sem (.assertEq 0) vm.stack) := by
-  instr_tac Generated.ops_assert_eq
-
-theorem refines_assert_eqw : ∀ vm : Vm, 16 ≤ vm.stack.length →
-    Refines (stackRun Generated.ops_assert_eqw vm) (sem (.assertEqw 0) vm.stack) := by
-  instr_tac Generated.ops_assert_eqw
-
-theorem refines_assert_err_7 : ∀ vm : Vm, 16 ≤ vm.stack.length →
-    Refines (stackRun Generated.ops_assert_err_7 vm) (sem (.assert 7) vm.stack) := by
-  instr_tac Generated.ops_assert_err_7
-
-theorem refines_assertz_err_8 : ∀ vm : Vm, 16 ≤ vm.stack.length →
-    Refines (stackRun Generated.ops_assertz_err_8 vm) (sem (.assertz 8) vm.stack) := by
-  instr_tac Generated.ops_assertz_err_8
-
-theorem refines_assert_eq_err_9 : ∀ vm : Vm, 16 ≤ vm.stack.length →
-    Refines (stackRun Generated.ops_assert_eq_err_9 vm) (sem (.assertEq 9) vm.stack) := by
-  instr_tac Generated.ops_assert_eq_err_9
-
-theorem refines_assert_eqw_err_4294967295 : ∀ vm : Vm, 16 ≤ vm.stack.length →
-    Refines (stackRun Generated.ops_assert_eqw_err_4294967295 vm) (sem (.assertEqw 4294967295) vm.stack) := by
-  instr_tac Generated.ops_assert_eqw_err_4294967295
-
-theorem refines_add : ∀ vm : Vm, 16 ≤ vm.stack.length →
-    Refines (stackRun Generated.ops_add vm) (sem .add vm.stack) := by
-  instr_tac Generated.ops_add
-
-theorem refines_sub : ∀ vm : Vm, 16 ≤ vm.stack.length →
-    Refines (stackRun Generated.ops_sub vm) (sem .sub vm.stack) := by
-  instr_tac Generated.ops_sub
-
-theorem refines_mul : ∀ vm : Vm, 16 ≤ vm.stack.length →
-    Refines (stackRun Generated.ops_mul vm) (sem .mul vm.stack) := by
-  instr_tac Generated.ops_mul
-
-theorem refines_div : ∀ vm : Vm, 16 ≤ vm.stack.length →
-    Refines (stackRun Generated.ops_div vm) (sem .div vm.stack) := by
-  instr_tac Generated.ops_div
-
-theorem refines_neg : ∀ vm : Vm, 16 ≤ vm.stack.length →
-    Refines (stackRun Generated.ops_neg vm) (sem .neg vm.stack) := by
-  instr_tac Generated.ops_neg
-
-theorem refines_inv : ∀ vm : Vm, 16 ≤ vm.stack.length →
-    Refines (stackRun Generated.ops_inv vm) (sem .inv vm.stack) := by
-  instr_tac Generated.ops_inv
-
-theorem refines_pow2 : ∀ vm : Vm, 16 ≤ vm.stack.length →
-    Refines (stackRun Generated.ops_pow2 vm) (sem .pow2 vm.stack) := by
-  instr_tac Generated.ops_pow2
-
-theorem refines_exp : ∀ vm : Vm, 16 ≤ vm.stack.length →
-    Refines (stackRun Generated.ops_exp vm) (sem .exp vm.stack) := by
-  instr_tac Generated.ops_exp
-
-theorem refines_ilog2 : ∀ vm : Vm, 16 ≤ vm.stack.length →
-    Refines (stackRun Generated.ops_ilog2 vm) (sem .ilog2 vm.stack) := by
-  instr_tac Generated.ops_ilog2
-
-theorem refines_not : ∀ vm : Vm, 16 ≤ vm.stack.length →
-    Refines (stackRun Generated.ops_not vm) (sem .not vm.stack) := by
-  instr_tac Generated.ops_not
-
-theorem refines_and : ∀ vm : Vm, 16 ≤ vm.stack.length →
-    Refines (stackRun Generated.ops_and vm) (sem .and vm.stack) := by
-  instr_tac Generated.ops_and
-
-theorem refines_or : ∀ vm : Vm, 16 ≤ vm.stack.length →
-    Refines (stackRun Generated.ops_or vm) (sem .or vm.stack) := by
-  instr_tac Generated.ops_or
-
-theorem refines_xor : ∀ vm : Vm, 16 ≤ vm.stack.length →
-    Refines (stackRun Generated.ops_xor vm) (sem .xor vm.stack) := by
-  instr_tac Generated.ops_xor
-
-theorem refines_eq : ∀ vm : Vm, 16 ≤ vm.stack.length →
-    Refines (stackRun Generated.ops_eq vm) (sem .eq vm.stack) := by
-  instr_tac Generated.ops_eq
-
-theorem refines_neq : ∀ vm : Vm, 16 ≤ vm.stack.length →
-    Refines (stackRun Generated.ops_neq vm) (sem .neq vm.stack) := by
-  instr_tac Generated.ops_neq
-
-theorem refines_lt : ∀ vm : Vm, 16 ≤ vm.stack.length →
-    Refines (stackRun Generated.ops_lt vm) (sem .lt vm.stack) := by
-  instr_tac Generated.ops_lt
-
-theorem refines_lte : ∀ vm : Vm, 16 ≤ vm.stack.length →
-    Refines (stackRun Generated.ops_lte vm) (sem .lte vm.stack) := by
-  instr_tac Generated.ops_lte
-
-theorem refines_gt : ∀ vm : Vm, 16 ≤ vm.stack.length →
-    Refines (stackRun Generated.ops_gt vm) (sem .gt vm.stack) := by
-  instr_tac Generated.ops_gt
-
-theorem refines_gte : ∀ vm : Vm, 16 ≤ vm.stack.length →
-    Refines (stackRun Generated.ops_gte vm) (sem .gte vm.stack) := by
-  instr_tac Generated.ops_gte
-
-theorem refines_is_odd : ∀ vm : Vm, 16 ≤ vm.stack.length →
-    Refines (stackRun Generated.ops_is_odd vm) (sem .isOdd vm.stack) := by
-  instr_tac Generated.ops_is_odd
-
-theorem refines_eqw : ∀ vm : Vm, 16 ≤ vm.stack.length →
-    Refines (stackRun Generated.ops_eqw vm) (sem .eqw vm.stack) := by
-  instr_tac Generated.ops_eqw
-
-theorem refines_ext2add : ∀ vm : Vm, 16 ≤ vm.stack.length →
-    Refines (stackRun Generated.ops_ext2add vm) (sem .ext2add vm.stack) := by
-  instr_tac Generated.ops_ext2add
-
-theorem refines_ext2sub : ∀ vm : Vm, 16 ≤ vm.stack.length →
-    Refines (stackRun Generated.ops_ext2sub vm) (sem .ext2sub vm.stack) := by
-  instr_tac Generated.ops_ext2sub
-
-theorem refines_ext2mul : ∀ vm : Vm, 16 ≤ vm.stack.length →
-    Refines (stackRun Generated.ops_ext2mul vm) (sem .ext2mul vm.stack) := by
-  instr_tac Generated.ops_ext2mul
-
-theorem refines_ext2div : ∀ vm : Vm, 16 ≤ vm.stack.length →
-    Refines (stackRun Generated.ops_ext2div vm) (sem .ext2div vm.stack) := by
-  instr_tac Generated.ops_ext2div
-
-theorem refines_ext2neg : ∀ vm : Vm, 16 ≤ vm.stack.length →
-    Refines (stackRun Generated.ops_ext2neg vm) (sem .ext2neg vm.stack) := by
-  instr_tac Generated.ops_ext2neg
-
-theorem refines_ext2inv : ∀ vm : Vm, 16 ≤ vm.stack.length →
-    Refines (stackRun Generated.ops_ext2inv vm) (sem .ext2inv vm.stack) := by
-  instr_tac Generated.ops_ext2inv
-
-theorem refines_u32test : ∀ vm : Vm, 16 ≤ vm.stack.length →
-    Refines (stackRun Generated.ops_u32test vm) (sem .u32test vm.stack) := by
-  instr_tac Generated.ops_u32test
-
-theorem refines_u32testw : ∀ vm : Vm, 16 ≤ vm.stack.length →
-    Refines (stackRun Generated.ops_u32testw vm) (sem .u32testw vm.stack) := by
-  instr_tac Generated.ops_u32testw
-
-theorem refines_u32assert : ∀ vm : Vm, 16 ≤ vm.stack.length →
-    Refines (stackRun Generated.ops_u32assert vm) (sem (.u32assert 0) vm.stack) := by
-  instr_tac Generated.ops_u32assert
-
-theorem refines_u32assert2 : ∀ vm : Vm, 16 ≤ vm.stack.length →
-    Refines (stackRun Generated.ops_u32assert2 vm) (sem (.u32assert2 0) vm.stack) := by
-  instr_tac Generated.ops_u32assert2
-
-theorem refines_u32assertw : ∀ vm : Vm, 16 ≤ vm.stack.length →
-    Refines (stackRun Generated.ops_u32assertw vm) (sem (.u32assertw 0) vm.stack) := by
-  instr_tac Generated.ops_u32assertw
-
-theorem refines_u32assert_err_3 : ∀ vm : Vm, 16 ≤ vm.stack.length →
-    Refines (stackRun Generated.ops_u32assert_err_3 vm) (sem (.u32assert 3) vm.stack) := by
-  instr_tac Generated.ops_u32assert_err_3
-
-theorem refines_u32assert2_err_5 : ∀ vm : Vm, 16 ≤ vm.stack.length →
-    Refines (stackRun Generated.ops_u32assert2_err_5 vm) (sem (.u32assert2 5) vm.stack) := by
-  instr_tac Generated.ops_u32assert2_err_5
-
-theorem refines_u32assertw_err_6 : ∀ vm : Vm, 16 ≤ vm.stack.length →
-    Refines (stackRun Generated.ops_u32assertw_err_6 vm) (sem (.u32assertw 6) vm.stack) := by
-  instr_tac Generated.ops_u32assertw_err_6
-
-theorem refines_u32cast : ∀ vm : Vm, 16 ≤ vm.stack.length →
-    Refines (stackRun Generated.ops_u32cast vm) (sem .u32cast vm.stack) := by
-  instr_tac Generated.ops_u32cast
-
-theorem refines_u32split : ∀ vm : Vm, 16 ≤ vm.stack.length →
-    Refines (stackRun Generated.ops_u32split vm) (sem .u32split vm.stack) := by
-  instr_tac Generated.ops_u32split
-
-theorem refines_u32wrapping_add : ∀ vm : Vm, 16 ≤ vm.stack.length →
-    Refines (stackRun Generated.ops_u32wrapping_add vm) (sem .u32wrappingAdd vm.stack) := by
-  instr_tac Generated.ops_u32wrapping_add
-
-theorem refines_u32overflowing_add : ∀ vm : Vm, 16 ≤ vm.stack.length →
-    Refines (stackRun Generated.ops_u32overflowing_add vm) (sem .u32overflowingAdd vm.stack) := by
-  instr_tac Generated.ops_u32overflowing_add
-
-theorem refines_u32overflowing_add3 : ∀ vm : Vm, 16 ≤ vm.stack.length →
-    Refines (stackRun Generated.ops_u32overflowing_add3 vm) (sem .u32overflowingAdd3 vm.stack) := by
-  instr_tac Generated.ops_u32overflowing_add3
-
-theorem refines_u32wrapping_add3 : ∀ vm : Vm, 16 ≤ vm.stack.length →
-    Refines (stackRun Generated.ops_u32wrapping_add3 vm) (sem .u32wrappingAdd3 vm.stack) := by
-  instr_tac Generated.ops_u32wrapping_add3
-
-theorem refines_u32wrapping_sub : ∀ vm : Vm, 16 ≤ vm.stack.length →
-    Refines (stackRun Generated.ops_u32wrapping_sub vm) (sem .u32wrappingSub vm.stack) := by
-  instr_tac Generated.ops_u32wrapping_sub
-
-theorem refines_u32overflowing_sub : ∀ vm : Vm, 16 ≤ vm.stack.length →
-    Refines (stackRun Generated.ops_u32overflowing_sub vm) (sem .u32overflowingSub vm.stack) := by
-  instr_tac Generated.ops_u32overflowing_sub
-
-theorem refines_u32wrapping_mul : ∀ vm : Vm, 16 ≤ vm.stack.length →
-    Refines (stackRun Generated.ops_u32wrapping_mul vm) (sem .u32wrappingMul vm.stack) := by
-  instr_tac Generated.ops_u32wrapping_mul
-
-theorem refines_u32overflowing_mul : ∀ vm : Vm, 16 ≤ vm.stack.length →
-    Refines (stackRun Generated.ops_u32overflowing_mul vm) (sem .u32overflowingMul vm.stack) := by
-  instr_tac Generated.ops_u32overflowing_mul
-
-theorem refines_u32overflowing_madd : ∀ vm : Vm, 16 ≤ vm.stack.length →
-    Refines (stackRun Generated.ops_u32overflowing_madd vm) (sem .u32overflowingMadd vm.stack) := by
-  instr_tac Generated.ops_u32overflowing_madd
-
-theorem refines_u32wrapping_madd : ∀ vm : Vm, 16 ≤ vm.stack.length →
-    Refines (stackRun Generated.ops_u32wrapping_madd vm) (sem .u32wrappingMadd vm.stack) := by
-  instr_tac Generated.ops_u32wrapping_madd
-
-theorem refines_u32div : ∀ vm : Vm, 16 ≤ vm.stack.length →
-    Refines (stackRun Generated.ops_u32div vm) (sem .u32div vm.stack) := by
-  instr_tac Generated.ops_u32div
-
-theorem refines_u32mod : ∀ vm : Vm, 16 ≤ vm.stack.length →
-    Refines (stackRun Generated.ops_u32mod vm) (sem .u32mod vm.stack) := by
-  instr_tac Generated.ops_u32mod
-
-theorem refines_u32divmod : ∀ vm : Vm, 16 ≤ vm.stack.length →
-    Refines (stackRun Generated.ops_u32divmod vm) (sem .u32divmod vm.stack) := by
-  instr_tac Generated.ops_u32divmod
-
-theorem refines_u32and : ∀ vm : Vm, 16 ≤ vm.stack.length →
-    Refines (stackRun Generated.ops_u32and vm) (sem .u32and vm.stack) := by
-  instr_tac Generated.ops_u32and
-
-theorem refines_u32or : ∀ vm : Vm, 16 ≤ vm.stack.length →
-    Refines (stackRun Generated.ops_u32or vm) (sem .u32or vm.stack) := by
-  instr_tac Generated.ops_u32or
-
-theorem refines_u32xor : ∀ vm : Vm, 16 ≤ vm.stack.length →
-    Refines (stackRun Generated.ops_u32xor vm) (sem .u32xor vm.stack) := by
-  instr_tac Generated.ops_u32xor
-
-theorem refines_u32not : ∀ vm : Vm, 16 ≤ vm.stack.length →
-    Refines (stackRun Generated.ops_u32not vm) (sem .u32not vm.stack) := by
-  instr_tac Generated.ops_u32not
-
-theorem refines_u32shl : ∀ vm : Vm, 16 ≤ vm.stack.length →
-    Refines (stackRun Generated.ops_u32shl vm) (sem .u32shl vm.stack) := by
-  instr_tac Generated.ops_u32shl
-
-theorem refines_u32shr : ∀ vm : Vm, 16 ≤ vm.stack.length →
-    Refines (stackRun Generated.ops_u32shr vm) (sem .u32shr vm.stack) := by
-  instr_tac Generated.ops_u32shr
-
-theorem refines_u32rotl : ∀ vm : Vm, 16 ≤ vm.stack.length →
-    Refines (stackRun Generated.ops_u32rotl vm) (sem .u32rotl vm.stack) := by
-  instr_tac Generated.ops_u32rotl
-
-theorem refines_u32rotr : ∀ vm : Vm, 16 ≤ vm.stack.length →
-    Refines (stackRun Generated.ops_u32rotr vm) (sem .u32rotr vm.stack) := by
-  instr_tac Generated.ops_u32rotr
-
-theorem refines_u32popcnt : ∀ vm : Vm, 16 ≤ vm.stack.length →
-    Refines (stackRun Generated.ops_u32popcnt vm) (sem .u32popcnt vm.stack) := by
-  instr_tac Generated.ops_u32popcnt
-
-theorem refines_u32clz : ∀ vm : Vm, 16 ≤ vm.stack.length →
-    Refines (stackRun Generated.ops_u32clz vm) (sem .u32clz vm.stack) := by
-  instr_tac Generated.ops_u32clz
-
-theorem refines_u32ctz : ∀ vm : Vm, 16 ≤ vm.stack.length →
-    Refines (stackRun Generated.ops_u32ctz vm) (sem .u32ctz vm.stack) := by
-  instr_tac Generated.ops_u32ctz
-
-theorem refines_u32clo : ∀ vm : Vm, 16 ≤ vm.stack.length →
-    Refines (stackRun Generated.ops_u32clo vm) (sem .u32clo vm.stack) := by
-  instr_tac Generated.ops_u32clo
-
-theorem refines_u32cto : ∀ vm : Vm, 16 ≤ vm.stack.length →
-    Refines (stackRun Generated.ops_u32cto vm) (sem .u32cto vm.stack) := by
-  instr_tac Generated.ops_u32cto
-
-theorem refines_u32lt : ∀ vm : Vm, 16 ≤ vm.stack.length →
-    Refines (stackRun Generated.ops_u32lt vm) (sem .u32lt vm.stack) := by
-  instr_tac Generated.ops_u32lt
-
-theorem refines_u32lte : ∀ vm : Vm, 16 ≤ vm.stack.length →
-    Refines (stackRun Generated.ops_u32lte vm) (sem .u32lte vm.stack) := by
-  instr_tac Generated.ops_u32lte
-
-theorem refines_u32gt : ∀ vm : Vm, 16 ≤ vm.stack.length →
-    Refines (stackRun Generated.ops_u32gt vm) (sem .u32gt vm.stack) := by
-  instr_tac Generated.ops_u32gt
-
-theorem refines_u32gte : ∀ vm : Vm, 16 ≤ vm.stack.length →
-    Refines (stackRun Generated.ops_u32gte vm) (sem .u32gte vm.stack) := by
-  instr_tac Generated.ops_u32gte
-
-theorem refines_u32min : ∀ vm : Vm, 16 ≤ vm.stack.length →
-    Refines (stackRun Generated.ops_u32min vm) (sem .u32min vm.stack) := by
-  instr_tac Generated.ops_u32min
-
-theorem refines_u32max : ∀ vm : Vm, 16 ≤ vm.stack.length →
-    Refines (stackRun Generated.ops_u32max vm) (sem .u32max vm.stack) := by
-  instr_tac Generated.ops_u32max
-
-theorem refines_drop : ∀ vm : Vm, 16 ≤ vm.stack.length →
-    Refines (stackRun Generated.ops_drop vm) (sem .drop vm.stack) := by
-  instr_tac Generated.ops_drop
-
-theorem refines_dropw : ∀ vm : Vm, 16 ≤ vm.stack.length →
-    Refines (stackRun Generated.ops_dropw vm) (sem .dropw vm.stack) := by
-  instr_tac Generated.ops_dropw
-
-theorem refines_padw : ∀ vm : Vm, 16 ≤ vm.stack.length →
-    Refines (stackRun Generated.ops_padw vm) (sem .padw vm.stack) := by
-  instr_tac Generated.ops_padw
-
-theorem refines_dup : ∀ vm : Vm, 16 ≤ vm.stack.length →
-    Refines (stackRun Generated.ops_dup vm) (sem (.dup 0) vm.stack) := by
-  instr_tac Generated.ops_dup
-
-theorem refines_dupw : ∀ vm : Vm, 16 ≤ vm.stack.length →
-    Refines (stackRun Generated.ops_dupw vm) (sem (.dupw 0) vm.stack) := by
-  instr_tac Generated.ops_dupw
-
-theorem refines_swap : ∀ vm : Vm, 16 ≤ vm.stack.length →
-    Refines (stackRun Generated.ops_swap vm) (sem (.swap 1) vm.stack) := by
-  instr_tac Generated.ops_swap
-
-theorem refines_swapw : ∀ vm : Vm, 16 ≤ vm.stack.length →
-    Refines (stackRun Generated.ops_swapw vm) (sem (.swapw 1) vm.stack) := by
-  instr_tac Generated.ops_swapw
-
-theorem refines_swapdw : ∀ vm : Vm, 16 ≤ vm.stack.length →
-    Refines (stackRun Generated.ops_swapdw vm) (sem .swapdw vm.stack) := by
-  instr_tac Generated.ops_swapdw
-
-theorem refines_cswap : ∀ vm : Vm, 16 ≤ vm.stack.length →
-    Refines (stackRun Generated.ops_cswap vm) (sem .cswap vm.stack) := by
-  instr_tac Generated.ops_cswap
-
-theorem refines_cswapw : ∀ vm : Vm, 16 ≤ vm.stack.length →
-    Refines (stackRun Generated.ops_cswapw vm) (sem .cswapw vm.stack) := by
-  instr_tac Generated.ops_cswapw
-
-theorem refines_cdrop : ∀ vm : Vm, 16 ≤ vm.stack.length →
-    Refines (stackRun Generated.ops_cdrop vm) (sem .cdrop vm.stack) := by
-  instr_tac Generated.ops_cdrop
-
-theorem refines_cdropw : ∀ vm : Vm, 16 ≤ vm.stack.length →
-    Refines (stackRun Generated.ops_cdropw vm) (sem .cdropw vm.stack) := by
-  instr_tac Generated.ops_cdropw
-
-theorem refines_sdepth : ∀ vm : Vm, 16 ≤ vm.stack.length →
-    Refines (stackRun Generated.ops_sdepth vm) (sem .sdepth vm.stack) := by
-  instr_tac Generated.ops_sdepth
-
-theorem refines_dup_0 : ∀ vm : Vm, 16 ≤ vm.stack.length →
-    Refines (stackRun Generated.ops_dup_0 vm) (sem (.dup 0) vm.stack) := by
-  instr_tac Generated.ops_dup_0
-
-theorem refines_dup_1 : ∀ vm : Vm, 16 ≤ vm.stack.length →
-    Refines (stackRun Generated.ops_dup_1 vm) (sem (.dup 1) vm.stack) := by
-  instr_tac Generated.ops_dup_1
-
-theorem refines_dup_2 : ∀ vm : Vm, 16 ≤ vm.stack.length →
-    Refines (stackRun Generated.ops_dup_2 vm) (sem (.dup 2) vm.stack) := by
-  instr_tac Generated.ops_dup_2
-
-theorem refines_dup_3 : ∀ vm : Vm, 16 ≤ vm.stack.length →
-    Refines (stackRun Generated.ops_dup_3 vm) (sem (.dup 3) vm.stack) := by
-  instr_tac Generated.ops_dup_3
-
-theorem refines_dup_4 : ∀ vm : Vm, 16 ≤ vm.stack.length →
-    Refines (stackRun Generated.ops_dup_4 vm) (sem (.dup 4) vm.stack) := by
-  instr_tac Generated.ops_dup_4
-
-theorem refines_dup_5 : ∀ vm : Vm, 16 ≤ vm.stack.length →
-    Refines (stackRun Generated.ops_dup_5 vm) (sem (.dup 5) vm.stack) := by
-  instr_tac Generated.ops_dup_5
-
-theorem refines_dup_6 : ∀ vm : Vm, 16 ≤ vm.stack.length →
-    Refines (stackRun Generated.ops_dup_6 vm) (sem (.dup 6) vm.stack) := by
-  instr_tac Generated.ops_dup_6
-
-theorem refines_dup_7 : ∀ vm : Vm, 16 ≤ vm.stack.length →
-    Refines (stackRun Generated.ops_dup_7 vm) (sem (.dup 7) vm.stack) := by
-  instr_tac Generated.ops_dup_7
-
-theorem refines_dup_8 : ∀ vm : Vm, 16 ≤ vm.stack.length →
-    Refines (stackRun Generated.ops_dup_8 vm) (sem (.dup 8) vm.stack) := by
-  instr_tac Generated.ops_dup_8
-
-theorem refines_dup_9 : ∀ vm : Vm, 16 ≤ vm.stack.length →
-    Refines (stackRun Generated.ops_dup_9 vm) (sem (.dup 9) vm.stack) := by
-  instr_tac Generated.ops_dup_9
-
-theorem refines_dup_10 : ∀ vm : Vm, 16 ≤ vm.stack.length →
-    Refines (stackRun Generated.ops_dup_10 vm) (sem (.dup 10) vm.stack) := by
-  instr_tac Generated.ops_dup_10
-
-theorem refines_dup_11 : ∀ vm : Vm, 16 ≤ vm.stack.length →
-    Refines (stackRun Generated.ops_dup_11 vm) (sem (.dup 11) vm.stack) := by
-  instr_tac Generated.ops_dup_11
-
-theorem refines_dup_12 : ∀ vm : Vm, 16 ≤ vm.stack.length →
-    Refines (stackRun Generated.ops_dup_12 vm) (sem (.dup 12) vm.stack) := by
-  instr_tac Generated.ops_dup_12
-
-theorem refines_dup_13 : ∀ vm : Vm, 16 ≤ vm.stack.length →
-    Refines (stackRun Generated.ops_dup_13 vm) (sem (.dup 13) vm.stack) := by
-  instr_tac Generated.ops_dup_13
-
-theorem refines_dup_14 : ∀ vm : Vm, 16 ≤ vm.stack.length →
-    Refines (stackRun Generated.ops_dup_14 vm) (sem (.dup 14) vm.stack) := by
-  instr_tac Generated.ops_dup_14
-
-theorem refines_dup_15 : ∀ vm : Vm, 16 ≤ vm.stack.length →
-    Refines (stackRun Generated.ops_dup_15 vm) (sem (.dup 15) vm.stack) := by
-  instr_tac Generated.ops_dup_15
-
-theorem refines_dupw_0 : ∀ vm : Vm, 16 ≤ vm.stack.length →
-    Refines (stackRun Generated.ops_dupw_0 vm) (sem (.dupw 0) vm.stack) := by
-  instr_tac Generated.ops_dupw_0
-
-theorem refines_dupw_1 : ∀ vm : Vm, 16 ≤ vm.stack.length →
-    Refines (stackRun Generated.ops_dupw_1 vm) (sem (.dupw 1) vm.stack) := by
-  instr_tac Generated.ops_dupw_1
-
-theorem refines_dupw_2 : ∀ vm : Vm, 16 ≤ vm.stack.length →
-    Refines (stackRun Generated.ops_dupw_2 vm) (sem (.dupw 2) vm.stack) := by
-  instr_tac Generated.ops_dupw_2
-
-theorem refines_dupw_3 : ∀ vm : Vm, 16 ≤ vm.stack.length →
-    Refines (stackRun Generated.ops_dupw_3 vm) (sem (.dupw 3) vm.stack) := by
-  instr_tac Generated.ops_dupw_3
-
-theorem refines_swap_1 : ∀ vm : Vm, 16 ≤ vm.stack.length →
-    Refines (stackRun Generated.ops_swap_1 vm) (sem (.swap 1) vm.stack) := by
-  instr_tac Generated.ops_swap_1
-
-theorem refines_swap_2 : ∀ vm : Vm, 16 ≤ vm.stack.length →
-    Refines (stackRun Generated.ops_swap_2 vm) (sem (.swap 2) vm.stack) := by
-  instr_tac Generated.ops_swap_2
-
-theorem refines_swap_3 : ∀ vm : Vm, 16 ≤ vm.stack.length →
-    Refines (stackRun Generated.ops_swap_3 vm) (sem (.swap 3) vm.stack) := by
-  instr_tac Generated.ops_swap_3
-
-theorem refines_swap_4 : ∀ vm : Vm, 16 ≤ vm.stack.length →
-    Refines (stackRun Generated.ops_swap_4 vm) (sem (.swap 4) vm.stack) := by
-  instr_tac Generated.ops_swap_4
-
-theorem refines_swap_5 : ∀ vm : Vm, 16 ≤ vm.stack.length →
-    Refines (stackRun Generated.ops_swap_5 vm) (sem (.swap 5) vm.stack) := by
-  instr_tac Generated.ops_swap_5
-
-theorem refines_swap_6 : ∀ vm : Vm, 16 ≤ vm.stack.length →
-    Refines (stackRun Generated.ops_swap_6 vm) (sem (.swap 6) vm.stack) := by
-  instr_tac Generated.ops_swap_6
-
-theorem refines_swap_7 : ∀ vm : Vm, 16 ≤ vm.stack.length →
-    Refines (stackRun Generated.ops_swap_7 vm) (sem (.swap 7) vm.stack) := by
-  instr_tac Generated.ops_swap_7
-
-theorem refines_swap_8 : ∀ vm : Vm, 16 ≤ vm.stack.length →
-    Refines (stackRun Generated.ops_swap_8 vm) (sem (.swap 8) vm.stack) := by
-  instr_tac Generated.ops_swap_8
-
-theorem refines_swap_9 : ∀ vm : Vm, 16 ≤ vm.stack.length →
-    Refines (stackRun Generated.ops_swap_9 vm) (sem (.swap 9) vm.stack) := by
-  instr_tac Generated.ops_swap_9
-
-theorem refines_swap_10 : ∀ vm : Vm, 16 ≤ vm.stack.length →
-    Refines (stackRun Generated.ops_swap_10 vm) (sem (.swap 10) vm.stack) := by
-  instr_tac Generated.ops_swap_10
-
-theorem refines_swap_11 : ∀ vm : Vm, 16 ≤ vm.stack.length →
-    Refines (stackRun Generated.ops_swap_11 vm) (sem (.swap 11) vm.stack) := by
-  instr_tac Generated.ops_swap_11
-
-theorem refines_swap_12 : ∀ vm : Vm, 16 ≤ vm.stack.length →
-    Refines (stackRun Generated.ops_swap_12 vm) (sem (.swap 12) vm.stack) := by
-  instr_tac Generated.ops_swap_12
-
-theorem refines_swap_13 : ∀ vm : Vm, 16 ≤ vm.stack.length →
-    Refines (stackRun Generated.ops_swap_13 vm) (sem (.swap 13) vm.stack) := by
-  instr_tac Generated.ops_swap_13
-
-theorem refines_swap_14 : ∀ vm : Vm, 16 ≤ vm.stack.length →
-    Refines (stackRun Generated.ops_swap_14 vm) (sem (.swap 14) vm.stack) := by
-  instr_tac Generated.ops_swap_14
-
-theorem refines_swap_15 : ∀ vm : Vm, 16 ≤ vm.stack.length →
-    Refines (stackRun Generated.ops_swap_15 vm) (sem (.swap 15) vm.stack) := by
-  instr_tac Generated.ops_swap_15
-
-theorem refines_swapw_1 : ∀ vm : Vm, 16 ≤ vm.stack.length →
-    Refines (stackRun Generated.ops_swapw_1 vm) (sem (.swapw 1) vm.stack) := by
-  instr_tac Generated.ops_swapw_1
-
-theorem refines_swapw_2 : ∀ vm : Vm, 16 ≤ vm.stack.length →
-    Refines (stackRun Generated.ops_swapw_2 vm) (sem (.swapw 2) vm.stack) := by
-  instr_tac Generated.ops_swapw_2
-
-theorem refines_swapw_3 : ∀ vm : Vm, 16 ≤ vm.stack.length →
-    Refines (stackRun Generated.ops_swapw_3 vm) (sem (.swapw 3) vm.stack) := by
-  instr_tac Generated.ops_swapw_3
-
-theorem refines_movup_2 : ∀ vm : Vm, 16 ≤ vm.stack.length →
-    Refines (stackRun Generated.ops_movup_2 vm) (sem (.movup 2) vm.stack) := by
-  instr_tac Generated.ops_movup_2
-
-theorem refines_movdn_2 : ∀ vm : Vm, 16 ≤ vm.stack.length →
-    Refines (stackRun Generated.ops_movdn_2 vm) (sem (.movdn 2) vm.stack) := by
-  instr_tac Generated.ops_movdn_2
-
-theorem refines_movup_3 : ∀ vm : Vm, 16 ≤ vm.stack.length →
-    Refines (stackRun Generated.ops_movup_3 vm) (sem (.movup 3) vm.stack) := by
-  instr_tac Generated.ops_movup_3
-
-theorem refines_movdn_3 : ∀ vm : Vm, 16 ≤ vm.stack.length →
-    Refines (stackRun Generated.ops_movdn_3 vm) (sem (.movdn 3) vm.stack) := by
-  instr_tac Generated.ops_movdn_3
-
-theorem refines_movup_4 : ∀ vm : Vm, 16 ≤ vm.stack.length →
-    Refines (stackRun Generated.ops_movup_4 vm) (sem (.movup 4) vm.stack) := by
-  instr_tac Generated.ops_movup_4
-
-theorem refines_movdn_4 : ∀ vm : Vm, 16 ≤ vm.stack.length →
-    Refines (stackRun Generated.ops_movdn_4 vm) (sem (.movdn 4) vm.stack) := by
-  instr_tac Generated.ops_movdn_4
-
-theorem refines_movup_5 : ∀ vm : Vm, 16 ≤ vm.stack.length →
-    Refines (stackRun Generated.ops_movup_5 vm) (sem (.movup 5) vm.stack) := by
-  instr_tac Generated.ops_movup_5
-
-theorem refines_movdn_5 : ∀ vm : Vm, 16 ≤ vm.stack.length →
-    Refines (stackRun Generated.ops_movdn_5 vm) (sem (.movdn 5) vm.stack) := by
-  instr_tac Generated.ops_movdn_5
-
-theorem refines_movup_6 : ∀ vm : Vm, 16 ≤ vm.stack.length →
-    Refines (stackRun Generated.ops_movup_6 vm) (sem (.movup 6) vm.stack) := by
-  instr_tac Generated.ops_movup_6
-
-theorem refines_movdn_6 : ∀ vm : Vm, 16 ≤ vm.stack.length →
-    Refines (stackRun Generated.ops_movdn_6 vm) (sem (.movdn 6) vm.stack) := by
-  instr_tac Generated.ops_movdn_6
-
-theorem refines_movup_7 : ∀ vm : Vm, 16 ≤ vm.stack.length →
-    Refines (stackRun Generated.ops_movup_7 vm) (sem (.movup 7) vm.stack) := by
-  instr_tac Generated.ops_movup_7
-
-theorem refines_movdn_7 : ∀ vm : Vm, 16 ≤ vm.stack.length →
-    Refines (stackRun Generated.ops_movdn_7 vm) (sem (.movdn 7) vm.stack) := by
-  instr_tac Generated.ops_movdn_7
-
-theorem refines_movup_8 : ∀ vm : Vm, 16 ≤ vm.stack.length →
-    Refines (stackRun Generated.ops_movup_8 vm) (sem (.movup 8) vm.stack) := by
-  instr_tac Generated.ops_movup_8
-
-theorem refines_movdn_8 : ∀ vm : Vm, 16 ≤ vm.stack.length →
-    Refines (stackRun Generated.ops_movdn_8 vm) (sem (.movdn 8) vm.stack) := by
-  instr_tac Generated.ops_movdn_8
-
-theorem refines_movup_9 : ∀ vm : Vm, 16 ≤ vm.stack.length →
-    Refines (stackRun Generated.ops_movup_9 vm) (sem (.movup 9) vm.stack) := by
-  instr_tac Generated.ops_movup_9
-
-theorem refines_movdn_9 : ∀ vm : Vm, 16 ≤ vm.stack.length →
-    Refines (stackRun Generated.ops_movdn_9 vm) (sem (.movdn 9) vm.stack) := by
-  instr_tac Generated.ops_movdn_9
-
-theorem refines_movup_10 : ∀ vm : Vm, 16 ≤ vm.stack.length →
-    Refines (stackRun Generated.ops_movup_10 vm) (sem (.movup 10) vm.stack) := by
-  instr_tac Generated.ops_movup_10
-
-theorem refines_movdn_10 : ∀ vm : Vm, 16 ≤ vm.stack.length →
-    Refines (stackRun Generated.ops_movdn_10 vm) (sem (.movdn 10) vm.stack) := by
-  instr_tac Generated.ops_movdn_10
-
-theorem refines_movup_11 : ∀ vm : Vm, 16 ≤ vm.stack.length →
-    Refines (stackRun Generated.ops_movup_11 vm) (sem (.movup 11) vm.stack) := by
-  instr_tac Generated.ops_movup_11
-
-theorem refines_movdn_11 : ∀ vm : Vm, 16 ≤ vm.stack.length →
-    Refines (stackRun Generated.ops_movdn_11 vm) (sem (.movdn 11) vm.stack) := by
-  instr_tac Generated.ops_movdn_11
-
-theorem refines_movup_12 : ∀ vm : Vm, 16 ≤ vm.stack.length →
-    Refines (stackRun Generated.ops_movup_12 vm) (sem (.movup 12) vm.stack) := by
-  instr_tac Generated.ops_movup_12
-
-theorem refines_movdn_12 : ∀ vm : Vm, 16 ≤ vm.stack.length →
-    Refines (stackRun Generated.ops_movdn_12 vm) (sem (.movdn 12) vm.stack) := by
-  instr_tac Generated.ops_movdn_12
-
-theorem refines_movup_13 : ∀ vm : Vm, 16 ≤ vm.stack.length →
-    Refines (stackRun Generated.ops_movup_13 vm) (sem (.movup 13) vm.stack) := by
-  instr_tac Generated.ops_movup_13
-
-theorem refines_movdn_13 : ∀ vm : Vm, 16 ≤ vm.stack.length →
-    Refines (stackRun Generated.ops_movdn_13 vm) (sem (.movdn 13) vm.stack) := by
-  instr_tac Generated.ops_movdn_13
-
-theorem refines_movup_14 : ∀ vm : Vm, 16 ≤ vm.stack.length →
-    Refines (stackRun Generated.ops_movup_14 vm) (sem (.movup 14) vm.stack) := by
-  instr_tac Generated.ops_movup_14
-
-theorem refines_movdn_14 : ∀ vm : Vm, 16 ≤ vm.stack.length →
-    Refines (stackRun Generated.ops_movdn_14 vm) (sem (.movdn 14) vm.stack) := by
-  instr_tac Generated.ops_movdn_14
-
-theorem refines_movup_15 : ∀ vm : Vm, 16 ≤ vm.stack.length →
-    Refines (stackRun Generated.ops_movup_15 vm) (sem (.movup 15) vm.stack) := by
-  instr_tac Generated.ops_movup_15
-
-theorem refines_movdn_15 : ∀ vm : Vm, 16 ≤ vm.stack.length →
-    Refines (stackRun Generated.ops_movdn_15 vm) (sem (.movdn 15) vm.stack) := by
-  instr_tac Generated.ops_movdn_15
-
-theorem refines_movupw_2 : ∀ vm : Vm, 16 ≤ vm.stack.length →
-    Refines (stackRun Generated.ops_movupw_2 vm) (sem (.movupw 2) vm.stack) := by
-  instr_tac Generated.ops_movupw_2
-
-theorem refines_movdnw_2 : ∀ vm : Vm, 16 ≤ vm.stack.length →
-    Refines (stackRun Generated.ops_movdnw_2 vm) (sem (.movdnw 2) vm.stack) := by
-  instr_tac Generated.ops_movdnw_2
-
-theorem refines_movupw_3 : ∀ vm : Vm, 16 ≤ vm.stack.length →
-    Refines (stackRun Generated.ops_movupw_3 vm) (sem (.movupw 3) vm.stack) := by
-  instr_tac Generated.ops_movupw_3
-
-theorem refines_movdnw_3 : ∀ vm : Vm, 16 ≤ vm.stack.length →
-    Refines (stackRun Generated.ops_movdnw_3 vm) (sem (.movdnw 3) vm.stack) := by
-  instr_tac Generated.ops_movdnw_3
-
-theorem refines_u32shl_0 : ∀ vm : Vm, 16 ≤ vm.stack.length →
-    Refines (stackRun Generated.ops_u32shl_0 vm) (sem (.u32shlImm 0) vm.stack) := by
-  instr_tac Generated.ops_u32shl_0
-
-theorem refines_u32shr_0 : ∀ vm : Vm, 16 ≤ vm.stack.length →
-    Refines (stackRun Generated.ops_u32shr_0 vm) (sem (.u32shrImm 0) vm.stack) := by
-  instr_tac Generated.ops_u32shr_0
-
-theorem refines_u32rotl_0 : ∀ vm : Vm, 16 ≤ vm.stack.length →
-    Refines (stackRun Generated.ops_u32rotl_0 vm) (sem (.u32rotlImm 0) vm.stack) := by
-  instr_tac Generated.ops_u32rotl_0
-
-theorem refines_u32rotr_0 : ∀ vm : Vm, 16 ≤ vm.stack.length →
-    Refines (stackRun Generated.ops_u32rotr_0 vm) (sem (.u32rotrImm 0) vm.stack) := by
-  instr_tac Generated.ops_u32rotr_0
-
-theorem refines_u32shl_1 : ∀ vm : Vm, 16 ≤ vm.stack.length →
-    Refines (stackRun Generated.ops_u32shl_1 vm) (sem (.u32shlImm 1) vm.stack) := by
-  instr_tac Generated.ops_u32shl_1
-
-theorem refines_u32shr_1 : ∀ vm : Vm, 16 ≤ vm.stack.length →
-    Refines (stackRun Generated.ops_u32shr_1 vm) (sem (.u32shrImm 1) vm.stack) := by
-  instr_tac Generated.ops_u32shr_1
-
-theorem refines_u32rotl_1 : ∀ vm : Vm, 16 ≤ vm.stack.length →
-    Refines (stackRun Generated.ops_u32rotl_1 vm) (sem (.u32rotlImm 1) vm.stack) := by
-  instr_tac Generated.ops_u32rotl_1
-
-theorem refines_u32rotr_1 : ∀ vm : Vm, 16 ≤ vm.stack.length →
-    Refines (stackRun Generated.ops_u32rotr_1 vm) (sem (.u32rotrImm 1) vm.stack) := by
-  instr_tac Generated.ops_u32rotr_1
-
-theorem refines_u32shl_2 : ∀ vm : Vm, 16 ≤ vm.stack.length →
-    Refines (stackRun Generated.ops_u32shl_2 vm) (sem (.u32shlImm 2) vm.stack) := by
-  instr_tac Generated.ops_u32shl_2
-
-theorem refines_u32shr_2 : ∀ vm : Vm, 16 ≤ vm.stack.length →
-    Refines (stackRun Generated.ops_u32shr_2 vm) (sem (.u32shrImm 2) vm.stack) := by
-  instr_tac Generated.ops_u32shr_2
-
-theorem refines_u32rotl_2 : ∀ vm : Vm, 16 ≤ vm.stack.length →
-    Refines (stackRun Generated.ops_u32rotl_2 vm) (sem (.u32rotlImm 2) vm.stack) := by
-  instr_tac Generated.ops_u32rotl_2
-
-theorem refines_u32rotr_2 : ∀ vm : Vm, 16 ≤ vm.stack.length →
-    Refines (stackRun Generated.ops_u32rotr_2 vm) (sem (.u32rotrImm 2) vm.stack) := by
-  instr_tac Generated.ops_u32rotr_2
-
-theorem refines_u32shl_3 : ∀ vm : Vm, 16 ≤ vm.stack.length →
-    Refines (stackRun Generated.ops_u32shl_3 vm) (sem (.u32shlImm 3) vm.stack) := by
-  instr_tac Generated.ops_u32shl_3
-
-theorem refines_u32shr_3 : ∀ vm : Vm, 16 ≤ vm.stack.length →
-    Refines (stackRun Generated.ops_u32shr_3 vm) (sem (.u32shrImm 3) vm.stack) := by
-  instr_tac Generated.ops_u32shr_3
-
-theorem refines_u32rotl_3 : ∀ vm : Vm, 16 ≤ vm.stack.length →
-    Refines (stackRun Generated.ops_u32rotl_3 vm) (sem (.u32rotlImm 3) vm.stack) := by
-  instr_tac Generated.ops_u32rotl_3
-
-theorem refines_u32rotr_3 : ∀ vm : Vm, 16 ≤ vm.stack.length →
-    Refines (stackRun Generated.ops_u32rotr_3 vm) (sem (.u32rotrImm 3) vm.stack) := by
-  instr_tac Generated.ops_u32rotr_3
-
-theorem refines_u32shl_4 : ∀ vm : Vm, 16 ≤ vm.stack.length →
-    Refines (stackRun Generated.ops_u32shl_4 vm) (sem (.u32shlImm 4) vm.stack) := by
-  instr_tac Generated.ops_u32shl_4
-
-theorem refines_u32shr_4 : ∀ vm : Vm, 16 ≤ vm.stack.length →
-    Refines (stackRun Generated.ops_u32shr_4 vm) (sem (.u32shrImm 4) vm.stack) := by
-  instr_tac Generated.ops_u32shr_4
-
-theorem refines_u32rotl_4 : ∀ vm : Vm, 16 ≤ vm.stack.length →
-    Refines (stackRun Generated.ops_u32rotl_4 vm) (sem (.u32rotlImm 4) vm.stack) := by
-  instr_tac Generated.ops_u32rotl_4
-
-theorem refines_u32rotr_4 : ∀ vm : Vm, 16 ≤ vm.stack.length →
-    Refines (stackRun Generated.ops_u32rotr_4 vm) (sem (.u32rotrImm 4) vm.stack) := by
-  instr_tac Generated.ops_u32rotr_4
-
-theorem refines_u32shl_5 : ∀ vm : Vm, 16 ≤ vm.stack.length →
-    Refines (stackRun Generated.ops_u32shl_5 vm) (sem (.u32shlImm 5) vm.stack) := by
-  instr_tac Generated.ops_u32shl_5
-
-theorem refines_u32shr_5 : ∀ vm : Vm, 16 ≤ vm.stack.length →
-    Refines (stackRun Generated.ops_u32shr_5 vm) (sem (.u32shrImm 5) vm.stack) := by
-  instr_tac Generated.ops_u32shr_5
-
-theorem refines_u32rotl_5 : ∀ vm : Vm, 16 ≤ vm.stack.length →
-    Refines (stackRun Generated.ops_u32rotl_5 vm) (sem (.u32rotlImm 5) vm.stack) := by
-  instr_tac Generated.ops_u32rotl_5
-
-theorem refines_u32rotr_5 : ∀ vm : Vm, 16 ≤ vm.stack.length →
-    Refines (stackRun Generated.ops_u32rotr_5 vm) (sem (.u32rotrImm 5) vm.stack) := by
-  instr_tac Generated.ops_u32rotr_5
-
-theorem refines_u32shl_6 : ∀ vm : Vm, 16 ≤ vm.stack.length →
-    Refines (stackRun Generated.ops_u32shl_6 vm) (sem (.u32shlImm 6) vm.stack) := by
-  instr_tac Generated.ops_u32shl_6
-
-theorem refines_u32shr_6 : ∀ vm : Vm, 16 ≤ vm.stack.length →
-    Refines (stackRun Generated.ops_u32shr_6 vm) (sem (.u32shrImm 6) vm.stack) := by
-  instr_tac Generated.ops_u32shr_6
-
-theorem refines_u32rotl_6 : ∀ vm : Vm, 16 ≤ vm.stack.length →
-    Refines (stackRun Generated.ops_u32rotl_6 vm) (sem (.u32rotlImm 6) vm.stack) := by
-  instr_tac Generated.ops_u32rotl_6
-
-theorem refines_u32rotr_6 : ∀ vm : Vm, 16 ≤ vm.stack.length →
-    Refines (stackRun Generated.ops_u32rotr_6 vm) (sem (.u32rotrImm 6) vm.stack) := by
-  instr_tac Generated.ops_u32rotr_6
-
-theorem refines_u32shl_7 : ∀ vm : Vm, 16 ≤ vm.stack.length →
-    Refines (stackRun Generated.ops_u32shl_7 vm) (sem (.u32shlImm 7) vm.stack) := by
-  instr_tac Generated.ops_u32shl_7
-
-theorem refines_u32shr_7 : ∀ vm : Vm, 16 ≤ vm.stack.length →
-    Refines (stackRun Generated.ops_u32shr_7 vm) (sem (.u32shrImm 7) vm.stack) := by
-  instr_tac Generated.ops_u32shr_7
-
-theorem refines_u32rotl_7 : ∀ vm : Vm, 16 ≤ vm.stack.length →
-    Refines (stackRun Generated.ops_u32rotl_7 vm) (sem (.u32rotlImm 7) vm.stack) := by
-  instr_tac Generated.ops_u32rotl_7
-
-theorem refines_u32rotr_7 : ∀ vm : Vm, 16 ≤ vm.stack.length →
-    Refines (stackRun Generated.ops_u32rotr_7 vm) (sem (.u32rotrImm 7) vm.stack) := by
-  instr_tac Generated.ops_u32rotr_7
-
-theorem refines_u32shl_8 : ∀ vm : Vm, 16 ≤ vm.stack.length →
-    Refines (stackRun Generated.ops_u32shl_8 vm) (sem (.u32shlImm 8) vm.stack) := by
-  instr_tac Generated.ops_u32shl_8
-
-theorem refines_u32shr_8 : ∀ vm : Vm, 16 ≤ vm.stack.length →
-    Refines (stackRun Generated.ops_u32shr_8 vm) (sem (.u32shrImm 8) vm.stack) := by
-  instr_tac Generated.ops_u32shr_8
-
-theorem refines_u32rotl_8 : ∀ vm : Vm, 16 ≤ vm.stack.length →
-    Refines (stackRun Generated.ops_u32rotl_8 vm) (sem (.u32rotlImm 8) vm.stack) := by
-  instr_tac Generated.ops_u32rotl_8
-
-theorem refines_u32rotr_8 : ∀ vm : Vm, 16 ≤ vm.stack.length →
-    Refines (stackRun Generated.ops_u32rotr_8 vm) (sem (.u32rotrImm 8) vm.stack) := by
-  instr_tac Generated.ops_u32rotr_8
-
-theorem refines_u32shl_9 : ∀ vm : Vm, 16 ≤ vm.stack.length →
-    Refines (stackRun Generated.ops_u32shl_9 vm) (sem (.u32shlImm 9) vm.stack) := by
-  instr_tac Generated.ops_u32shl_9
-
-theorem refines_u32shr_9 : ∀ vm : Vm, 16 ≤ vm.stack.length →
-    Refines (stackRun Generated.ops_u32shr_9 vm) (sem (.u32shrImm 9) vm.stack) := by
-  instr_tac Generated.ops_u32shr_9
-
-theorem refines_u32rotl_9 : ∀ vm : Vm, 16 ≤ vm.stack.length →
-    Refines (stackRun Generated.ops_u32rotl_9 vm) (sem (.u32rotlImm 9) vm.stack) := by
-  instr_tac Generated.ops_u32rotl_9
-
-theorem refines_u32rotr_9 : ∀ vm : Vm, 16 ≤ vm.stack.length →
-    Refines (stackRun Generated.ops_u32rotr_9 vm) (sem (.u32rotrImm 9) vm.stack) := by
-  instr_tac Generated.ops_u32rotr_9
-
-theorem refines_u32shl_10 : ∀ vm : Vm, 16 ≤ vm.stack.length →
-    Refines (stackRun Generated.ops_u32shl_10 vm) (sem (.u32shlImm 10) vm.stack) := by
-  instr_tac Generated.ops_u32shl_10
-
-theorem refines_u32shr_10 : ∀ vm : Vm, 16 ≤ vm.stack.length →
-    Refines (stackRun Generated.ops_u32shr_10 vm) (sem (.u32shrImm 10) vm.stack) := by
-  instr_tac Generated.ops_u32shr_10
-
-theorem refines_u32rotl_10 : ∀ vm : Vm, 16 ≤ vm.stack.length →
-    Refines (stackRun Generated.ops_u32rotl_10 vm) (sem (.u32rotlImm 10) vm.stack) := by
-  instr_tac Generated.ops_u32rotl_10
-
-theorem refines_u32rotr_10 : ∀ vm : Vm, 16 ≤ vm.stack.length →
-    Refines (stackRun Generated.ops_u32rotr_10 vm) (sem (.u32rotrImm 10) vm.stack) := by
-  instr_tac Generated.ops_u32rotr_10
-
-theorem refines_u32shl_11 : ∀ vm : Vm, 16 ≤ vm.stack.length →
-    Refines (stackRun Generated.ops_u32shl_11 vm) (sem (.u32shlImm 11) vm.stack) := by
-  instr_tac Generated.ops_u32shl_11
-
-theorem refines_u32shr_11 : ∀ vm : Vm, 16 ≤ vm.stack.length →
-    Refines (stackRun Generated.ops_u32shr_11 vm) (sem (.u32shrImm 11) vm.stack) := by
-  instr_tac Generated.ops_u32shr_11
-
-theorem refines_u32rotl_11 : ∀ vm : Vm, 16 ≤ vm.stack.length →
-    Refines (stackRun Generated.ops_u32rotl_11 vm) (sem (.u32rotlImm 11) vm.stack) := by
-  instr_tac Generated.ops_u32rotl_11
-
-theorem refines_u32rotr_11 : ∀ vm : Vm, 16 ≤ vm.stack.length →
-    Refines (stackRun Generated.ops_u32rotr_11 vm) (sem (.u32rotrImm 11) vm.stack) := by
-  instr_tac Generated.ops_u32rotr_11
-
-theorem refines_u32shl_12 : ∀ vm : Vm, 16 ≤ vm.stack.length →
-    Refines (stackRun Generated.ops_u32shl_12 vm) (sem (.u32shlImm 12) vm.stack) := by
-  instr_tac Generated.ops_u32shl_12
-
-theorem refines_u32shr_12 : ∀ vm : Vm, 16 ≤ vm.stack.length →
-    Refines (stackRun Generated.ops_u32shr_12 vm) (sem (.u32shrImm 12) vm.stack) := by
-  instr_tac Generated.ops_u32shr_12
-
-theorem refines_u32rotl_12 : ∀ vm : Vm, 16 ≤ vm.stack.length →
-    Refines (stackRun Generated.ops_u32rotl_12 vm) (sem (.u32rotlImm 12) vm.stack) := by
-  instr_tac Generated.ops_u32rotl_12
-
-theorem refines_u32rotr_12 : ∀ vm : Vm, 16 ≤ vm.stack.length →
-    Refines (stackRun Generated.ops_u32rotr_12 vm) (sem (.u32rotrImm 12) vm.stack) := by
-  instr_tac Generated.ops_u32rotr_12
-
-theorem refines_u32shl_13 : ∀ vm : Vm, 16 ≤ vm.stack.length →
-    Refines (stackRun Generated.ops_u32shl_13 vm) (sem (.u32shlImm 13) vm.stack) := by
-  instr_tac Generated.ops_u32shl_13
-
-theorem refines_u32shr_13 : ∀ vm : Vm, 16 ≤ vm.stack.length →
-    Refines (stackRun Generated.ops_u32shr_13 vm) (sem (.u32shrImm 13) vm.stack) := by
-  instr_tac Generated.ops_u32shr_13
-
-theorem refines_u32rotl_13 : ∀ vm : Vm, 16 ≤ vm.stack.length →
-    Refines (stackRun Generated.ops_u32rotl_13 vm) (sem (.u32rotlImm 13) vm.stack) := by
-  instr_tac Generated.ops_u32rotl_13
-
-theorem refines_u32rotr_13 : ∀ vm : Vm, 16 ≤ vm.stack.length →
-    Refines (stackRun Generated.ops_u32rotr_13 vm) (sem (.u32rotrImm 13) vm.stack) := by
-  instr_tac Generated.ops_u32rotr_13
-
-theorem refines_u32shl_14 : ∀ vm : Vm, 16 ≤ vm.stack.length →
-    Refines (stackRun Generated.ops_u32shl_14 vm) (sem (.u32shlImm 14) vm.stack) := by
-  instr_tac Generated.ops_u32shl_14
-
-theorem refines_u32shr_14 : ∀ vm : Vm, 16 ≤ vm.stack.length →
-    Refines (stackRun Generated.ops_u32shr_14 vm) (sem (.u32shrImm 14) vm.stack) := by
-  instr_tac Generated.ops_u32shr_14
-
-theorem refines_u32rotl_14 : ∀ vm : Vm, 16 ≤ vm.stack.length →
-    Refines (stackRun Generated.ops_u32rotl_14 vm) (sem (.u32rotlImm 14) vm.stack) := by
-  instr_tac Generated.ops_u32rotl_14
-
-theorem refines_u32rotr_14 : ∀ vm : Vm, 16 ≤ vm.stack.length →
-    Refines (stackRun Generated.ops_u32rotr_14 vm) (sem (.u32rotrImm 14) vm.stack) := by
-  instr_tac Generated.ops_u32rotr_14
-
-theorem refines_u32shl_15 : ∀ vm : Vm, 16 ≤ vm.stack.length →
-    Refines (stackRun Generated.ops_u32shl_15 vm) (sem (.u32shlImm 15) vm.stack) := by
-  instr_tac Generated.ops_u32shl_15
-
-theorem refines_u32shr_15 : ∀ vm : Vm, 16 ≤ vm.stack.length →
-    Refines (stackRun Generated.ops_u32shr_15 vm) (sem (.u32shrImm 15) vm.stack) := by
-  instr_tac Generated.ops_u32shr_15
-
-theorem refines_u32rotl_15 : ∀ vm : Vm, 16 ≤ vm.stack.length →
-    Refines (stackRun Generated.ops_u32rotl_15 vm) (sem (.u32rotlImm 15) vm.stack) := by
-  instr_tac Generated.ops_u32rotl_15
-
-theorem refines_u32rotr_15 : ∀ vm : Vm, 16 ≤ vm.stack.length →
-    Refines (stackRun Generated.ops_u32rotr_15 vm) (sem (.u32rotrImm 15) vm.stack) := by
-  instr_tac Generated.ops_u32rotr_15
-
-theorem refines_u32shl_16 : ∀ vm : Vm, 16 ≤ vm.stack.length →
-    Refines (stackRun Generated.ops_u32shl_16 vm) (sem (.u32shlImm 16) vm.stack) := by
-  instr_tac Generated.ops_u32shl_16
-
-theorem refines_u32shr_16 : ∀ vm : Vm, 16 ≤ vm.stack.length →
-    Refines (stackRun Generated.ops_u32shr_16 vm) (sem (.u32shrImm 16) vm.stack) := by
-  instr_tac Generated.ops_u32shr_16
-
-theorem refines_u32rotl_16 : ∀ vm : Vm, 16 ≤ vm.stack.length →
-    Refines (stackRun Generated.ops_u32rotl_16 vm) (sem (.u32rotlImm 16) vm.stack) := by
-  instr_tac Generated.ops_u32rotl_16
-
-theorem refines_u32rotr_16 : ∀ vm : Vm, 16 ≤ vm.stack.length →
-    Refines (stackRun Generated.ops_u32rotr_16 vm) (sem (.u32rotrImm 16) vm.stack) := by
-  instr_tac Generated.ops_u32rotr_16
-
-theorem refines_u32shl_17 : ∀ vm : Vm, 16 ≤ vm.stack.length →
-    Refines (stackRun Generated.ops_u32shl_17 vm) (sem (.u32shlImm 17) vm.stack) := by
-  instr_tac Generated.ops_u32shl_17
-
-theorem refines_u32shr_17 : ∀ vm : Vm, 16 ≤ vm.stack.length →
-    Refines (stackRun Generated.ops_u32shr_17 vm) (sem (.u32shrImm 17) vm.stack) := by
-  instr_tac Generated.ops_u32shr_17
-
-theorem refines_u32rotl_17 : ∀ vm : Vm, 16 ≤ vm.stack.length →
-    Refines (stackRun Generated.ops_u32rotl_17 vm) (sem (.u32rotlImm 17) vm.stack) := by
-  instr_tac Generated.ops_u32rotl_17
-
-theorem refines_u32rotr_17 : ∀ vm : Vm, 16 ≤ vm.stack.length →
-    Refines (stackRun Generated.ops_u32rotr_17 vm) (sem (.u32rotrImm 17) vm.stack) := by
-  instr_tac Generated.ops_u32rotr_17
-
-theorem refines_u32shl_18 : ∀ vm : Vm, 16 ≤ vm.stack.length →
-    Refines (stackRun Generated.ops_u32shl_18 vm) (sem (.u32shlImm 18) vm.stack) := by
-  instr_tac Generated.ops_u32shl_18
-
-theorem refines_u32shr_18 : ∀ vm : Vm, 16 ≤ vm.stack.length →
-    Refines (stackRun Generated.ops_u32shr_18 vm) (sem (.u32shrImm 18) vm.stack) := by
-  instr_tac Generated.ops_u32shr_18
-
-theorem refines_u32rotl_18 : ∀ vm : Vm, 16 ≤ vm.stack.length →
-    Refines (stackRun Generated.ops_u32rotl_18 vm) (sem (.u32rotlImm 18) vm.stack) := by
-  instr_tac Generated.ops_u32rotl_18
-
-theorem refines_u32rotr_18 : ∀ vm : Vm, 16 ≤ vm.stack.length →
-    Refines (stackRun Generated.ops_u32rotr_18 vm) (sem (.u32rotrImm 18) vm.stack) := by
-  instr_tac Generated.ops_u32rotr_18
-
-theorem refines_u32shl_19 : ∀ vm : Vm, 16 ≤ vm.stack.length →
-    Refines (stackRun Generated.ops_u32shl_19 vm) (sem (.u32shlImm 19) vm.stack) := by
-  instr_tac Generated.ops_u32shl_19
-
-theorem refines_u32shr_19 : ∀ vm : Vm, 16 ≤ vm.stack.length →
-    Refines (stackRun Generated.ops_u32shr_19 vm) (sem (.u32shrImm 19) vm.stack) := by
-  instr_tac Generated.ops_u32shr_19
-
-theorem refines_u32rotl_19 : ∀ vm : Vm, 16 ≤ vm.stack.length →
-    Refines (stackRun Generated.ops_u32rotl_19 vm) (sem (.u32rotlImm 19) vm.stack) := by
-  instr_tac Generated.ops_u32rotl_19
-
-theorem refines_u32rotr_19 : ∀ vm : Vm, 16 ≤ vm.stack.length →
-    Refines (stackRun Generated.ops_u32rotr_19 vm) (sem (.u32rotrImm 19) vm.stack) := by
-  instr_tac Generated.ops_u32rotr_19
-
-theorem refines_u32shl_20 : ∀ vm : Vm, 16 ≤ vm.stack.length →
-    Refines (stackRun Generated.ops_u32shl_20 vm) (sem (.u32shlImm 20) vm.stack) := by
-  instr_tac Generated.ops_u32shl_20
-
-theorem refines_u32shr_20 : ∀ vm : Vm, 16 ≤ vm.stack.length →
-    Refines (stackRun Generated.ops_u32shr_20 vm) (sem (.u32shrImm 20) vm.stack) := by
-  instr_tac Generated.ops_u32shr_20
-
-theorem refines_u32rotl_20 : ∀ vm : Vm, 16 ≤ vm.stack.length →
-    Refines (stackRun Generated.ops_u32rotl_20 vm) (sem (.u32rotlImm 20) vm.stack) := by
-  instr_tac Generated.ops_u32rotl_20
-
-theorem refines_u32rotr_20 : ∀ vm : Vm, 16 ≤ vm.stack.length →
-    Refines (stackRun Generated.ops_u32rotr_20 vm) (sem (.u32rotrImm 20) vm.stack) := by
-  instr_tac Generated.ops_u32rotr_20
-
-theorem refines_u32shl_21 : ∀ vm : Vm, 16 ≤ vm.stack.length →
-    Refines (stackRun Generated.ops_u32shl_21 vm) (sem (.u32shlImm 21) vm.stack) := by
-  instr_tac Generated.ops_u32shl_21
-
-theorem refines_u32shr_21 : ∀ vm : Vm, 16 ≤ vm.stack.length →
-    Refines (stackRun Generated.ops_u32shr_21 vm) (sem (.u32shrImm 21) vm.stack) := by
-  instr_tac Generated.ops_u32shr_21
-
-theorem refines_u32rotl_21 : ∀ vm : Vm, 16 ≤ vm.stack.length →
-    Refines (stackRun Generated.ops_u32rotl_21 vm) (sem (.u32rotlImm 21) vm.stack) := by
-  instr_tac Generated.ops_u32rotl_21
-
-theorem refines_u32rotr_21 : ∀ vm : Vm, 16 ≤ vm.stack.length →
-    Refines (stackRun Generated.ops_u32rotr_21 vm) (sem (.u32rotrImm 21) vm.stack) := by
-  instr_tac Generated.ops_u32rotr_21
-
-theorem refines_u32shl_22 : ∀ vm : Vm, 16 ≤ vm.stack.length →
-    Refines (stackRun Generated.ops_u32shl_22 vm) (sem (.u32shlImm 22) vm.stack) := by
-  instr_tac Generated.ops_u32shl_22
-
-theorem refines_u32shr_22 : ∀ vm : Vm, 16 ≤ vm.stack.length →
-    Refines (stackRun Generated.ops_u32shr_22 vm) (sem (.u32shrImm 22) vm.stack) := by
-  instr_tac Generated.ops_u32shr_22
-
-theorem refines_u32rotl_22 : ∀ vm : Vm, 16 ≤ vm.stack.length →
-    Refines (stackRun Generated.ops_u32rotl_22 vm) (sem (.u32rotlImm 22) vm.stack) := by
-  instr_tac Generated.ops_u32rotl_22
-
-theorem refines_u32rotr_22 : ∀ vm : Vm, 16 ≤ vm.stack.length →
-    Refines (stackRun Generated.ops_u32rotr_22 vm) (sem (.u32rotrImm 22) vm.stack) := by
-  instr_tac Generated.ops_u32rotr_22
-
-theorem refines_u32shl_23 : ∀ vm : Vm, 16 ≤ vm.stack.length →
-    Refines (stackRun Generated.ops_u32shl_23 vm) (sem (.u32shlImm 23) vm.stack) := by
-  instr_tac Generated.ops_u32shl_23
-
-theorem refines_u32shr_23 : ∀ vm : Vm, 16 ≤ vm.stack.length →
-    Refines (stackRun Generated.ops_u32shr_23 vm) (sem (.u32shrImm 23) vm.stack) := by
-  instr_tac Generated.ops_u32shr_23
-
-theorem refines_u32rotl_23 : ∀ vm : Vm, 16 ≤ vm.stack.length →
-    Refines (stackRun Generated.ops_u32rotl_23 vm) (sem (.u32rotlImm 23) vm.stack) := by
-  instr_tac Generated.ops_u32rotl_23
-
-theorem refines_u32rotr_23 : ∀ vm : Vm, 16 ≤ vm.stack.length →
-    Refines (stackRun Generated.ops_u32rotr_23 vm) (sem (.u32rotrImm 23) vm.stack) := by
-  instr_tac Generated.ops_u32rotr_23
-
-theorem refines_u32shl_24 : ∀ vm : Vm, 16 ≤ vm.stack.length →
-    Refines (stackRun Generated.ops_u32shl_24 vm) (sem (.u32shlImm 24) vm.stack) := by
-  instr_tac Generated.ops_u32shl_24
-
-theorem refines_u32shr_24 : ∀ vm : Vm, 16 ≤ vm.stack.length →
-    Refines (stackRun Generated.ops_u32shr_24 vm) (sem (.u32shrImm 24) vm.stack) := by
-  instr_tac Generated.ops_u32shr_24
-
-theorem refines_u32rotl_24 : ∀ vm : Vm, 16 ≤ vm.stack.length →
-    Refines (stackRun Generated.ops_u32rotl_24 vm) (sem (.u32rotlImm 24) vm.stack) := by
-  instr_tac Generated.ops_u32rotl_24
-
-theorem refines_u32rotr_24 : ∀ vm : Vm, 16 ≤ vm.stack.length →
-    Refines (stackRun Generated.ops_u32rotr_24 vm) (sem (.u32rotrImm 24) vm.stack) := by
-  instr_tac Generated.ops_u32rotr_24
-
-theorem refines_u32shl_25 : ∀ vm : Vm, 16 ≤ vm.stack.length →
-    Refines (stackRun Generated.ops_u32shl_25 vm) (sem (.u32shlImm 25) vm.stack) := by
-  instr_tac Generated.ops_u32shl_25
-
-theorem refines_u32shr_25 : ∀ vm : Vm, 16 ≤ vm.stack.length →
-    Refines (stackRun Generated.ops_u32shr_25 vm) (sem (.u32shrImm 25) vm.stack) := by
-  instr_tac Generated.ops_u32shr_25
-
-theorem refines_u32rotl_25 : ∀ vm : Vm, 16 ≤ vm.stack.length →
-    Refines (stackRun Generated.ops_u32rotl_25 vm) (sem (.u32rotlImm 25) vm.stack) := by
-  instr_tac Generated.ops_u32rotl_25
-
-theorem refines_u32rotr_25 : ∀ vm : Vm, 16 ≤ vm.stack.length →
-    Refines (stackRun Generated.ops_u32rotr_25 vm) (sem (.u32rotrImm 25) vm.stack) := by
-  instr_tac Generated.ops_u32rotr_25
-
-theorem refines_u32shl_26 : ∀ vm : Vm, 16 ≤ vm.stack.length →
-    Refines (stackRun Generated.ops_u32shl_26 vm) (sem (.u32shlImm 26) vm.stack) := by
-  instr_tac Generated.ops_u32shl_26
-
-theorem refines_u32shr_26 : ∀ vm : Vm, 16 ≤ vm.stack.length →
-    Refines (stackRun Generated.ops_u32shr_26 vm) (sem (.u32shrImm 26) vm.stack) := by
-  instr_tac Generated.ops_u32shr_26
-
-theorem refines_u32rotl_26 : ∀ vm : Vm, 16 ≤ vm.stack.length →
-    Refines (stackRun Generated.ops_u32rotl_26 vm) (sem (.u32rotlImm 26) vm.stack) := by
-  instr_tac Generated.ops_u32rotl_26
-
-theorem refines_u32rotr_26 : ∀ vm : Vm, 16 ≤ vm.stack.length →
-    Refines (stackRun Generated.ops_u32rotr_26 vm) (sem (.u32rotrImm 26) vm.stack) := by
-  instr_tac Generated.ops_u32rotr_26
-
-theorem refines_u32shl_27 : ∀ vm : Vm, 16 ≤ vm.stack.length →
-    Refines (stackRun Generated.ops_u32shl_27 vm) (sem (.u32shlImm 27) vm.stack) := by
-  instr_tac Generated.ops_u32shl_27
-
-theorem refines_u32shr_27 : ∀ vm : Vm, 16 ≤ vm.stack.length →
-    Refines (stackRun Generated.ops_u32shr_27 vm) (sem (.u32shrImm 27) vm.stack) := by
-  instr_tac Generated.ops_u32shr_27
-
-theorem refines_u32rotl_27 : ∀ vm : Vm, 16 ≤ vm.stack.length →
-    Refines (stackRun Generated.ops_u32rotl_27 vm) (sem (.u32rotlImm 27) vm.stack) := by
-  instr_tac Generated.ops_u32rotl_27
-
-theorem refines_u32rotr_27 : ∀ vm : Vm, 16 ≤ vm.stack.length →
-    Refines (stackRun Generated.ops_u32rotr_27 vm) (sem (.u32rotrImm 27) vm.stack) := by
-  instr_tac Generated.ops_u32rotr_27
-
-theorem refines_u32shl_28 : ∀ vm : Vm, 16 ≤ vm.stack.length →
-    Refines (stackRun Generated.ops_u32shl_28 vm) (sem (.u32shlImm 28) vm.stack) := by
-  instr_tac Generated.ops_u32shl_28
-
-theorem refines_u32shr_28 : ∀ vm : Vm, 16 ≤ vm.stack.length →
-    Refines (stackRun Generated.ops_u32shr_28 vm) (sem (.u32shrImm 28) vm.stack) := by
-  instr_tac Generated.ops_u32shr_28
-
-theorem refines_u32rotl_28 : ∀ vm : Vm, 16 ≤ vm.stack.length →
-    Refines (stackRun Generated.ops_u32rotl_28 vm) (sem (.u32rotlImm 28) vm.stack) := by
-  instr_tac Generated.ops_u32rotl_28
-
-theorem refines_u32rotr_28 : ∀ vm : Vm, 16 ≤ vm.stack.length →
-    Refines (stackRun Generated.ops_u32rotr_28 vm) (sem (.u32rotrImm 28) vm.stack) := by
-  instr_tac Generated.ops_u32rotr_28
-
-theorem refines_u32shl_29 : ∀ vm : Vm, 16 ≤ vm.stack.length →
-    Refines (stackRun Generated.ops_u32shl_29 vm) (sem (.u32shlImm 29) vm.stack) := by
-  instr_tac Generated.ops_u32shl_29
-
-theorem refines_u32shr_29 : ∀ vm : Vm, 16 ≤ vm.stack.length →
-    Refines (stackRun Generated.ops_u32shr_29 vm) (sem (.u32shrImm 29) vm.stack) := by
-  instr_tac Generated.ops_u32shr_29
-
-theorem refines_u32rotl_29 : ∀ vm : Vm, 16 ≤ vm.stack.length →
-    Refines (stackRun Generated.ops_u32rotl_29 vm) (sem (.u32rotlImm 29) vm.stack) := by
-  instr_tac Generated.ops_u32rotl_29
-
-theorem refines_u32rotr_29 : ∀ vm : Vm, 16 ≤ vm.stack.length →
-    Refines (stackRun Generated.ops_u32rotr_29 vm) (sem (.u32rotrImm 29) vm.stack) := by
-  instr_tac Generated.ops_u32rotr_29
-
-theorem refines_u32shl_30 : ∀ vm : Vm, 16 ≤ vm.stack.length →
-    Refines (stackRun Generated.ops_u32shl_30 vm) (sem (.u32shlImm 30) vm.stack) := by
-  instr_tac Generated.ops_u32shl_30
-
-theorem refines_u32shr_30 : ∀ vm : Vm, 16 ≤ vm.stack.length →
-    Refines (stackRun Generated.ops_u32shr_30 vm) (sem (.u32shrImm 30) vm.stack) := by
-  instr_tac Generated.ops_u32shr_30
-
-theorem refines_u32rotl_30 : ∀ vm : Vm, 16 ≤ vm.stack.length →
-    Refines (stackRun Generated.ops_u32rotl_30 vm) (sem (.u32rotlImm 30) vm.stack) := by
-  instr_tac Generated.ops_u32rotl_30
-
-theorem refines_u32rotr_30 : ∀ vm : Vm, 16 ≤ vm.stack.length →
-    Refines (stackRun Generated.ops_u32rotr_30 vm) (sem (.u32rotrImm 30) vm.stack) := by
-  instr_tac Generated.ops_u32rotr_30
-
-theorem refines_u32shl_31 : ∀ vm : Vm, 16 ≤ vm.stack.length →
-    Refines (stackRun Generated.ops_u32shl_31 vm) (sem (.u32shlImm 31) vm.stack) := by
-  instr_tac Generated.ops_u32shl_31
-
-theorem refines_u32shr_31 : ∀ vm : Vm, 16 ≤ vm.stack.length →
-    Refines (stackRun Generated.ops_u32shr_31 vm) (sem (.u32shrImm 31) vm.stack) := by
-  instr_tac Generated.ops_u32shr_31
-
-theorem refines_u32rotl_31 : ∀ vm : Vm, 16 ≤ vm.stack.length →
-    Refines (stackRun Generated.ops_u32rotl_31 vm) (sem (.u32rotlImm 31) vm.stack) := by
-  instr_tac Generated.ops_u32rotl_31
-
-theorem refines_u32rotr_31 : ∀ vm : Vm, 16 ≤ vm.stack.length →
-    Refines (stackRun Generated.ops_u32rotr_31 vm) (sem (.u32rotrImm 31) vm.stack) := by
-  instr_tac Generated.ops_u32rotr_31
-
-theorem refines_exp_u0 : ∀ vm : Vm, 16 ≤ vm.stack.length →
-    Refines (stackRun Generated.ops_exp_u0 vm) (sem (.expBits 0) vm.stack) := by
-  instr_tac Generated.ops_exp_u0
-
-theorem refines_exp_u1 : ∀ vm : Vm, 16 ≤ vm.stack.length →
-    Refines (stackRun Generated.ops_exp_u1 vm) (sem (.expBits 1) vm.stack) := by
-  instr_tac Generated.ops_exp_u1
-
-theorem refines_exp_u2 : ∀ vm : Vm, 16 ≤ vm.stack.length →
-    Refines (stackRun Generated.ops_exp_u2 vm) (sem (.expBits 2) vm.stack) := by
-  instr_tac Generated.ops_exp_u2
-
-theorem refines_exp_u3 : ∀ vm : Vm, 16 ≤ vm.stack.length →
-    Refines (stackRun Generated.ops_exp_u3 vm) (sem (.expBits 3) vm.stack) := by
-  instr_tac Generated.ops_exp_u3
-
-theorem refines_exp_u4 : ∀ vm : Vm, 16 ≤ vm.stack.length →
-    Refines (stackRun Generated.ops_exp_u4 vm) (sem (.expBits 4) vm.stack) := by
-  instr_tac Generated.ops_exp_u4
-
-theorem refines_exp_u5 : ∀ vm : Vm, 16 ≤ vm.stack.length →
-    Refines (stackRun Generated.ops_exp_u5 vm) (sem (.expBits 5) vm.stack) := by
-  instr_tac Generated.ops_exp_u5
-
-theorem refines_exp_u6 : ∀ vm : Vm, 16 ≤ vm.stack.length →
-    Refines (stackRun Generated.ops_exp_u6 vm) (sem (.expBits 6) vm.stack) := by
-  instr_tac Generated.ops_exp_u6
-
-theorem refines_exp_u7 : ∀ vm : Vm, 16 ≤ vm.stack.length →
-    Refines (stackRun Generated.ops_exp_u7 vm) (sem (.expBits 7) vm.stack) := by
-  instr_tac Generated.ops_exp_u7
-
-theorem refines_exp_u8 : ∀ vm : Vm, 16 ≤ vm.stack.length →
-    Refines (stackRun Generated.ops_exp_u8 vm) (sem (.expBits 8) vm.stack) := by
-  instr_tac Generated.ops_exp_u8
-
-theorem refines_exp_u9 : ∀ vm : Vm, 16 ≤ vm.stack.length →
-    Refines (stackRun Generated.ops_exp_u9 vm) (sem (.expBits 9) vm.stack) := by
-  instr_tac Generated.ops_exp_u9
-
-theorem refines_exp_u10 : ∀ vm : Vm, 16 ≤ vm.stack.length →
-    Refines (stackRun Generated.ops_exp_u10 vm) (sem (.expBits 10) vm.stack) := by
-  instr_tac Generated.ops_exp_u10
-
-theorem refines_exp_u11 : ∀ vm : Vm, 16 ≤ vm.stack.length →
-    Refines (stackRun Generated.ops_exp_u11 vm) (sem (.expBits 11) vm.stack) := by
-  instr_tac Generated.ops_exp_u11
-
-theorem refines_exp_u12 : ∀ vm : Vm, 16 ≤ vm.stack.length →
-    Refines (stackRun Generated.ops_exp_u12 vm) (sem (.expBits 12) vm.stack) := by
-  instr_tac Generated.ops_exp_u12
-
-theorem refines_exp_u13 : ∀ vm : Vm, 16 ≤ vm.stack.length →
-    Refines (stackRun Generated.ops_exp_u13 vm) (sem (.expBits 13) vm.stack) := by
-  instr_tac Generated.ops_exp_u13
-
-theorem refines_exp_u14 : ∀ vm : Vm, 16 ≤ vm.stack.length →
-    Refines (stackRun Generated.ops_exp_u14 vm) (sem (.expBits 14) vm.stack) := by
-  instr_tac Generated.ops_exp_u14
-
-theorem refines_exp_u15 : ∀ vm : Vm, 16 ≤ vm.stack.length →
-    Refines (stackRun Generated.ops_exp_u15 vm) (sem (.expBits 15) vm.stack) := by
-  instr_tac Generated.ops_exp_u15
-
-theorem refines_exp_u16 : ∀ vm : Vm, 16 ≤ vm.stack.length →
-    Refines (stackRun Generated.ops_exp_u16 vm) (sem (.expBits 16) vm.stack) := by
-  instr_tac Generated.ops_exp_u16
-
-theorem refines_exp_u17 : ∀ vm : Vm, 16 ≤ vm.stack.length →
-    Refines (stackRun Generated.ops_exp_u17 vm) (sem (.expBits 17) vm.stack) := by
-  instr_tac Generated.ops_exp_u17
-
-theorem refines_exp_u18 : ∀ vm : Vm, 16 ≤ vm.stack.length →
-    Refines (stackRun Generated.ops_exp_u18 vm) (sem (.expBits 18) vm.stack) := by
-  instr_tac Generated.ops_exp_u18
-
-theorem refines_exp_u19 : ∀ vm : Vm, 16 ≤ vm.stack.length →
-    Refines (stackRun Generated.ops_exp_u19 vm) (sem (.expBits 19) vm.stack) := by
-  instr_tac Generated.ops_exp_u19
-
-theorem refines_exp_u20 : ∀ vm : Vm, 16 ≤ vm.stack.length →
-    Refines (stackRun Generated.ops_exp_u20 vm) (sem (.expBits 20) vm.stack) := by
-  instr_tac Generated.ops_exp_u20
-
-theorem refines_exp_u21 : ∀ vm : Vm, 16 ≤ vm.stack.length →
-    Refines (stackRun Generated.ops_exp_u21 vm) (sem (.expBits 21) vm.stack) := by
-  instr_tac Generated.ops_exp_u21
-
-theorem refines_exp_u22 : ∀ vm : Vm, 16 ≤ vm.stack.length →
-    Refines (stackRun Generated.ops_exp_u22 vm) (sem (.expBits 22) vm.stack) := by
-  instr_tac Generated.ops_exp_u22
-
-theorem refines_exp_u23 : ∀ vm : Vm, 16 ≤ vm.stack.length →
-    Refines (stackRun Generated.ops_exp_u23 vm) (sem (.expBits 23) vm.stack) := by
-  instr_tac Generated.ops_exp_u23
-
-theorem refines_exp_u24 : ∀ vm : Vm, 16 ≤ vm.stack.length →
-    Refines (stackRun Generated.ops_exp_u24 vm) (sem (.expBits 24) vm.stack) := by
-  instr_tac Generated.ops_exp_u24
-
-theorem refines_exp_u25 : ∀ vm : Vm, 16 ≤ vm.stack.length →
-    Refines (stackRun Generated.ops_exp_u25 vm) (sem (.expBits 25) vm.stack) := by
-  instr_tac Generated.ops_exp_u25
-
-theorem refines_exp_u26 : ∀ vm : Vm, 16 ≤ vm.stack.length →
-    Refines (stackRun Generated.ops_exp_u26 vm) (sem (.expBits 26) vm.stack) := by
-  instr_tac Generated.ops_exp_u26
-
-theorem refines_exp_u27 : ∀ vm : Vm, 16 ≤ vm.stack.length →
-    Refines (stackRun Generated.ops_exp_u27 vm) (sem (.expBits 27) vm.stack) := by
-  instr_tac Generated.ops_exp_u27
-
-theorem refines_exp_u28 : ∀ vm : Vm, 16 ≤ vm.stack.length →
-    Refines (stackRun Generated.ops_exp_u28 vm) (sem (.expBits 28) vm.stack) := by
-  instr_tac Generated.ops_exp_u28
-
-theorem refines_exp_u29 : ∀ vm : Vm, 16 ≤ vm.stack.length →
-    Refines (stackRun Generated.ops_exp_u29 vm) (sem (.expBits 29) vm.stack) := by
-  instr_tac Generated.ops_exp_u29
-
-theorem refines_exp_u30 : ∀ vm : Vm, 16 ≤ vm.stack.length →
-    Refines (stackRun Generated.ops_exp_u30 vm) (sem (.expBits 30) vm.stack) := by
-  instr_tac Generated.ops_exp_u30
-
-theorem refines_exp_u31 : ∀ vm : Vm, 16 ≤ vm.stack.length →
-    Refines (stackRun Generated.ops_exp_u31 vm) (sem (.expBits 31) vm.stack) := by
-  instr_tac Generated.ops_exp_u31
-
-theorem refines_exp_u32 : ∀ vm : Vm, 16 ≤ vm.stack.length →
-    Refines (stackRun Generated.ops_exp_u32 vm) (sem (.expBits 32) vm.stack) := by
-  instr_tac Generated.ops_exp_u32
-
-theorem refines_exp_u33 : ∀ vm : Vm, 16 ≤ vm.stack.length →
-    Refines (stackRun Generated.ops_exp_u33 vm) (sem (.expBits 33) vm.stack) := by
-  instr_tac Generated.ops_exp_u33
-
-theorem refines_exp_u34 : ∀ vm : Vm, 16 ≤ vm.stack.length →
-    Refines (stackRun Generated.ops_exp_u34 vm) (sem (.expBits 34) vm.stack) := by
-  instr_tac Generated.ops_exp_u34
-
-theorem refines_exp_u35 : ∀ vm : Vm, 16 ≤ vm.stack.length →
-    Refines (stackRun Generated.ops_exp_u35 vm) (sem (.expBits 35) vm.stack) := by
-  instr_tac Generated.ops_exp_u35
-
-theorem refines_exp_u36 : ∀ vm : Vm, 16 ≤ vm.stack.length →
-    Refines (stackRun Generated.ops_exp_u36 vm) (sem (.expBits 36) vm.stack) := by
-  instr_tac Generated.ops_exp_u36
-
-theorem refines_exp_u37 : ∀ vm : Vm, 16 ≤ vm.stack.length →
-    Refines (stackRun Generated.ops_exp_u37 vm) (sem (.expBits 37) vm.stack) := by
-  instr_tac Generated.ops_exp_u37
-
-theorem refines_exp_u38 : ∀ vm : Vm, 16 ≤ vm.stack.length →
-    Refines (stackRun Generated.ops_exp_u38 vm) (sem (.expBits 38) vm.stack) := by
-  instr_tac Generated.ops_exp_u38
-
-theorem refines_exp_u39 : ∀ vm : Vm, 16 ≤ vm.stack.length →
-    Refines (stackRun Generated.ops_exp_u39 vm) (sem (.expBits 39) vm.stack) := by
-  instr_tac Generated.ops_exp_u39
-
-theorem refines_exp_u40 : ∀ vm : Vm, 16 ≤ vm.stack.length →
-    Refines (stackRun Generated.ops_exp_u40 vm) (sem (.expBits 40) vm.stack) := by
-  instr_tac Generated.ops_exp_u40
-
-theorem refines_exp_u41 : ∀ vm : Vm, 16 ≤ vm.stack.length →
-    Refines (stackRun Generated.ops_exp_u41 vm) (sem (.expBits 41) vm.stack) := by
-  instr_tac Generated.ops_exp_u41
-
-theorem refines_exp_u42 : ∀ vm : Vm, 16 ≤ vm.stack.length →
-    Refines (stackRun Generated.ops_exp_u42 vm) (sem (.expBits 42) vm.stack) := by
-  instr_tac Generated.ops_exp_u42
-
-theorem refines_exp_u43 : ∀ vm : Vm, 16 ≤ vm.stack.length →
-    Refines (stackRun Generated.ops_exp_u43 vm) (sem (.expBits 43) vm.stack) := by
-  instr_tac Generated.ops_exp_u43
-
-theorem refines_exp_u44 : ∀ vm : Vm, 16 ≤ vm.stack.length →
-    Refines (stackRun Generated.ops_exp_u44 vm) (sem (.expBits 44) vm.stack) := by
-  instr_tac Generated.ops_exp_u44
-
-theorem refines_exp_u45 : ∀ vm : Vm, 16 ≤ vm.stack.length →
-    Refines (stackRun Generated.ops_exp_u45 vm) (sem (.expBits 45) vm.stack) := by
-  instr_tac Generated.ops_exp_u45
-
-theorem refines_exp_u46 : ∀ vm : Vm, 16 ≤ vm.stack.length →
-    Refines (stackRun Generated.ops_exp_u46 vm) (sem (.expBits 46) vm.stack) := by
-  instr_tac Generated.ops_exp_u46
-
-theorem refines_exp_u47 : ∀ vm : Vm, 16 ≤ vm.stack.length →
-    Refines (stackRun Generated.ops_exp_u47 vm) (sem (.expBits 47) vm.stack) := by
-  instr_tac Generated.ops_exp_u47
-
-theorem refines_exp_u48 : ∀ vm : Vm, 16 ≤ vm.stack.length →
-    Refines (stackRun Generated.ops_exp_u48 vm) (sem (.expBits 48) vm.stack) := by
-  instr_tac Generated.ops_exp_u48
-
-theorem refines_exp_u49 : ∀ vm : Vm, 16 ≤ vm.stack.length →
-    Refines (stackRun Generated.ops_exp_u49 vm) (sem (.expBits 49) vm.stack) := by
-  instr_tac Generated.ops_exp_u49
-
-theorem refines_exp_u50 : ∀ vm : Vm, 16 ≤ vm.stack.length →
-    Refines (stackRun Generated.ops_exp_u50 vm) (sem (.expBits 50) vm.stack) := by
-  instr_tac Generated.ops_exp_u50
-
-theorem refines_exp_u51 : ∀ vm : Vm, 16 ≤ vm.stack.length →
-    Refines (stackRun Generated.ops_exp_u51 vm) (sem (.expBits 51) vm.stack) := by
-  instr_tac Generated.ops_exp_u51
-
-theorem refines_exp_u52 : ∀ vm : Vm, 16 ≤ vm.stack.length →
-    Refines (stackRun Generated.ops_exp_u52 vm) (sem (.expBits 52) vm.stack) := by
-  instr_tac Generated.ops_exp_u52
-
-theorem refines_exp_u53 : ∀ vm : Vm, 16 ≤ vm.stack.length →
-    Refines (stackRun Generated.ops_exp_u53 vm) (sem (.expBits 53) vm.stack) := by
-  instr_tac Generated.ops_exp_u53
-
-theorem refines_exp_u54 : ∀ vm : Vm, 16 ≤ vm.stack.length →
-    Refines (stackRun Generated.ops_exp_u54 vm) (sem (.expBits 54) vm.stack) := by
-  instr_tac Generated.ops_exp_u54
-
-theorem refines_exp_u55 : ∀ vm : Vm, 16 ≤ vm.stack.length →
-    Refines (stackRun Generated.ops_exp_u55 vm) (sem (.expBits 55) vm.stack) := by
-  instr_tac Generated.ops_exp_u55
-
-theorem refines_exp_u56 : ∀ vm : Vm, 16 ≤ vm.stack.length →
-    Refines (stackRun Generated.ops_exp_u56 vm) (sem (.expBits 56) vm.stack) := by
-  instr_tac Generated.ops_exp_u56
-
-theorem refines_exp_u57 : ∀ vm : Vm, 16 ≤ vm.stack.length →
-    Refines (stackRun Generated.ops_exp_u57 vm) (sem (.expBits 57) vm.stack) := by
-  instr_tac Generated.ops_exp_u57
-
-theorem refines_exp_u58 : ∀ vm : Vm, 16 ≤ vm.stack.length →
-    Refines (stackRun Generated.ops_exp_u58 vm) (sem (.expBits 58) vm.stack) := by
-  instr_tac Generated.ops_exp_u58
-
-theorem refines_exp_u59 : ∀ vm : Vm, 16 ≤ vm.stack.length →
-    Refines (stackRun Generated.ops_exp_u59 vm) (sem (.expBits 59) vm.stack) := by
-  instr_tac Generated.ops_exp_u59
-
-theorem refines_exp_u60 : ∀ vm : Vm, 16 ≤ vm.stack.length →
-    Refines (stackRun Generated.ops_exp_u60 vm) (sem (.expBits 60) vm.stack) := by
-  instr_tac Generated.ops_exp_u60
-
-theorem refines_exp_u61 : ∀ vm : Vm, 16 ≤ vm.stack.length →
-    Refines (stackRun Generated.ops_exp_u61 vm) (sem (.expBits 61) vm.stack) := by
-  instr_tac Generated.ops_exp_u61
-
-theorem refines_exp_u62 : ∀ vm : Vm, 16 ≤ vm.stack.length →
-    Refines (stackRun Generated.ops_exp_u62 vm) (sem (.expBits 62) vm.stack) := by
-  instr_tac Generated.ops_exp_u62
-
-theorem refines_exp_u63 : ∀ vm : Vm, 16 ≤ vm.stack.length →
-    Refines (stackRun Generated.ops_exp_u63 vm) (sem (.expBits 63) vm.stack) := by
-  instr_tac Generated.ops_exp_u63
-
-theorem refines_exp_u64 : ∀ vm : Vm, 16 ≤ vm.stack.length →
-    Refines (stackRun Generated.ops_exp_u64 vm) (sem (.expBits 64) vm.stack) := by
-  instr_tac Generated.ops_exp_u64
-
-theorem refines_add_0 : ∀ vm : Vm, 16 ≤ vm.stack.length →
-    Refines (stackRun Generated.ops_add_0 vm) (sem (.addImm 0) vm.stack) := by
-  instr_tac Generated.ops_add_0
-
-theorem refines_sub_0 : ∀ vm : Vm, 16 ≤ vm.stack.length →
-    Refines (stackRun Generated.ops_sub_0 vm) (sem (.subImm 0) vm.stack) := by
-  instr_tac Generated.ops_sub_0
-
-theorem refines_mul_0 : ∀ vm : Vm, 16 ≤ vm.stack.length →
-    Refines (stackRun Generated.ops_mul_0 vm) (sem (.mulImm 0) vm.stack) := by
-  instr_tac Generated.ops_mul_0
-
-theorem refines_eq_0 : ∀ vm : Vm, 16 ≤ vm.stack.length →
-    Refines (stackRun Generated.ops_eq_0 vm) (sem (.eqImm 0) vm.stack) := by
-  instr_tac Generated.ops_eq_0
-
-theorem refines_neq_0 : ∀ vm : Vm, 16 ≤ vm.stack.length →
-    Refines (stackRun Generated.ops_neq_0 vm) (sem (.neqImm 0) vm.stack) := by
-  instr_tac Generated.ops_neq_0
-
-theorem refines_exp_0 : ∀ vm : Vm, 16 ≤ vm.stack.length →
-    Refines (stackRun Generated.ops_exp_0 vm) (sem (.expImm 0) vm.stack) := by
-  instr_tac Generated.ops_exp_0
-
-theorem refines_push_0 : ∀ vm : Vm, 16 ≤ vm.stack.length →
-    Refines (stackRun Generated.ops_push_0 vm) (sem (.push [0]) vm.stack) := by
-  instr_tac Generated.ops_push_0
-
-theorem refines_add_1 : ∀ vm : Vm, 16 ≤ vm.stack.length →
-    Refines (stackRun Generated.ops_add_1 vm) (sem (.addImm 1) vm.stack) := by
-  instr_tac Generated.ops_add_1
-
-theorem refines_sub_1 : ∀ vm : Vm, 16 ≤ vm.stack.length →
-    Refines (stackRun Generated.ops_sub_1 vm) (sem (.subImm 1) vm.stack) := by
-  instr_tac Generated.ops_sub_1
-
-theorem refines_mul_1 : ∀ vm : Vm, 16 ≤ vm.stack.length →
-    Refines (stackRun Generated.ops_mul_1 vm) (sem (.mulImm 1) vm.stack) := by
-  instr_tac Generated.ops_mul_1
-
-theorem refines_div_1 : ∀ vm : Vm, 16 ≤ vm.stack.length →
-    Refines (stackRun Generated.ops_div_1 vm) (sem (.divImm 1) vm.stack) := by
-  instr_tac Generated.ops_div_1
-
-theorem refines_eq_1 : ∀ vm : Vm, 16 ≤ vm.stack.length →
-    Refines (stackRun Generated.ops_eq_1 vm) (sem (.eqImm 1) vm.stack) := by
-  instr_tac Generated.ops_eq_1
-
-theorem refines_neq_1 : ∀ vm : Vm, 16 ≤ vm.stack.length →
-    Refines (stackRun Generated.ops_neq_1 vm) (sem (.neqImm 1) vm.stack) := by
-  instr_tac Generated.ops_neq_1
-
-theorem refines_exp_1 : ∀ vm : Vm, 16 ≤ vm.stack.length →
-    Refines (stackRun Generated.ops_exp_1 vm) (sem (.expImm 1) vm.stack) := by
-  instr_tac Generated.ops_exp_1
-
-theorem refines_push_1 : ∀ vm : Vm, 16 ≤ vm.stack.length →
-    Refines (stackRun Generated.ops_push_1 vm) (sem (.push [1]) vm.stack) := by
-  instr_tac Generated.ops_push_1
-
-theorem refines_add_2 : ∀ vm : Vm, 16 ≤ vm.stack.length →
-    Refines (stackRun Generated.ops_add_2 vm) (sem (.addImm 2) vm.stack) := by
-  instr_tac Generated.ops_add_2
-
-theorem refines_sub_2 : ∀ vm : Vm, 16 ≤ vm.stack.length →
-    Refines (stackRun Generated.ops_sub_2 vm) (sem (.subImm 2) vm.stack) := by
-  instr_tac Generated.ops_sub_2
-
-theorem refines_mul_2 : ∀ vm : Vm, 16 ≤ vm.stack.length →
-    Refines (stackRun Generated.ops_mul_2 vm) (sem (.mulImm 2) vm.stack) := by
-  instr_tac Generated.ops_mul_2
-
-theorem refines_div_2 : ∀ vm : Vm, 16 ≤ vm.stack.length →
-    Refines (stackRun Generated.ops_div_2 vm) (sem (.divImm 2) vm.stack) := by
-  instr_tac Generated.ops_div_2
-
-theorem refines_eq_2 : ∀ vm : Vm, 16 ≤ vm.stack.length →
-    Refines (stackRun Generated.ops_eq_2 vm) (sem (.eqImm 2) vm.stack) := by
-  instr_tac Generated.ops_eq_2
-
-theorem refines_neq_2 : ∀ vm : Vm, 16 ≤ vm.stack.length →
-    Refines (stackRun Generated.ops_neq_2 vm) (sem (.neqImm 2) vm.stack) := by
-  instr_tac Generated.ops_neq_2
-
-theorem refines_exp_2 : ∀ vm : Vm, 16 ≤ vm.stack.length →
-    Refines (stackRun Generated.ops_exp_2 vm) (sem (.expImm 2) vm.stack) := by
-  instr_tac Generated.ops_exp_2
-
-theorem refines_push_2 : ∀ vm : Vm, 16 ≤ vm.stack.length →
-    Refines (stackRun Generated.ops_push_2 vm) (sem (.push [2]) vm.stack) := by
-  instr_tac Generated.ops_push_2
-
-theorem refines_add_3 : ∀ vm : Vm, 16 ≤ vm.stack.length →
-    Refines (stackRun Generated.ops_add_3 vm) (sem (.addImm 3) vm.stack) := by
-  instr_tac Generated.ops_add_3
-
-theorem refines_sub_3 : ∀ vm : Vm, 16 ≤ vm.stack.length →
-    Refines (stackRun Generated.ops_sub_3 vm) (sem (.subImm 3) vm.stack) := by
-  instr_tac Generated.ops_sub_3
-
-theorem refines_mul_3 : ∀ vm : Vm, 16 ≤ vm.stack.length →
-    Refines (stackRun Generated.ops_mul_3 vm) (sem (.mulImm 3) vm.stack) := by
-  instr_tac Generated.ops_mul_3
-
-theorem refines_div_3 : ∀ vm : Vm, 16 ≤ vm.stack.length →
-    Refines (stackRun Generated.ops_div_3 vm) (sem (.divImm 3) vm.stack) := by
-  instr_tac Generated.ops_div_3
-
-theorem refines_eq_3 : ∀ vm : Vm, 16 ≤ vm.stack.length →
-    Refines (stackRun Generated.ops_eq_3 vm) (sem (.eqImm 3) vm.stack) := by
-  instr_tac Generated.ops_eq_3
-
-theorem refines_neq_3 : ∀ vm : Vm, 16 ≤ vm.stack.length →
-    Refines (stackRun Generated.ops_neq_3 vm) (sem (.neqImm 3) vm.stack) := by
-  instr_tac Generated.ops_neq_3
-
-theorem refines_exp_3 : ∀ vm : Vm, 16 ≤ vm.stack.length →
-    Refines (stackRun Generated.ops_exp_3 vm) (sem (.expImm 3) vm.stack) := by
-  instr_tac Generated.ops_exp_3
-
-theorem refines_push_3 : ∀ vm : Vm, 16 ≤ vm.stack.length →
-    Refines (stackRun Generated.ops_push_3 vm) (sem (.push [3]) vm.stack) := by
-  instr_tac Generated.ops_push_3
-
-theorem refines_add_7 : ∀ vm : Vm, 16 ≤ vm.stack.length →
-    Refines (stackRun Generated.ops_add_7 vm) (sem (.addImm 7) vm.stack) := by
-  instr_tac Generated.ops_add_7
-
-theorem refines_sub_7 : ∀ vm : Vm, 16 ≤ vm.stack.length →
-    Refines (stackRun Generated.ops_sub_7 vm) (sem (.subImm 7) vm.stack) := by
-  instr_tac Generated.ops_sub_7
-
-theorem refines_mul_7 : ∀ vm : Vm, 16 ≤ vm.stack.length →
-    Refines (stackRun Generated.ops_mul_7 vm) (sem (.mulImm 7) vm.stack) := by
-  instr_tac Generated.ops_mul_7
-
-theorem refines_div_7 : ∀ vm : Vm, 16 ≤ vm.stack.length →
-    Refines (stackRun Generated.ops_div_7 vm) (sem (.divImm 7) vm.stack) := by
-  instr_tac Generated.ops_div_7
-
-theorem refines_eq_7 : ∀ vm : Vm, 16 ≤ vm.stack.length →
-    Refines (stackRun Generated.ops_eq_7 vm) (sem (.eqImm 7) vm.stack) := by
-  instr_tac Generated.ops_eq_7
-
-theorem refines_neq_7 : ∀ vm : Vm, 16 ≤ vm.stack.length →
-    Refines (stackRun Generated.ops_neq_7 vm) (sem (.neqImm 7) vm.stack) := by
-  instr_tac Generated.ops_neq_7
-
-theorem refines_exp_7 : ∀ vm : Vm, 16 ≤ vm.stack.length →
-    Refines (stackRun Generated.ops_exp_7 vm) (sem (.expImm 7) vm.stack) := by
-  instr_tac Generated.ops_exp_7
-
-theorem refines_push_7 : ∀ vm : Vm, 16 ≤ vm.stack.length →
-    Refines (stackRun Generated.ops_push_7 vm) (sem (.push [7]) vm.stack) := by
-  instr_tac Generated.ops_push_7
-
-theorem refines_add_65536 : ∀ vm : Vm, 16 ≤ vm.stack.length →
-    Refines (stackRun Generated.ops_add_65536 vm) (sem (.addImm 65536) vm.stack) := by
-  instr_tac Generated.ops_add_65536
-
-theorem refines_sub_65536 : ∀ vm : Vm, 16 ≤ vm.stack.length →
-    Refines (stackRun Generated.ops_sub_65536 vm) (sem (.subImm 65536) vm.stack) := by
-  instr_tac Generated.ops_sub_65536
-
-theorem refines_mul_65536 : ∀ vm : Vm, 16 ≤ vm.stack.length →
-    Refines (stackRun Generated.ops_mul_65536 vm) (sem (.mulImm 65536) vm.stack) := by
-  instr_tac Generated.ops_mul_65536
-
-theorem refines_div_65536 : ∀ vm : Vm, 16 ≤ vm.stack.length →
-    Refines (stackRun Generated.ops_div_65536 vm) (sem (.divImm 65536) vm.stack) := by
-  instr_tac Generated.ops_div_65536
-
-theorem refines_eq_65536 : ∀ vm : Vm, 16 ≤ vm.stack.length →
-    Refines (stackRun Generated.ops_eq_65536 vm) (sem (.eqImm 65536) vm.stack) := by
-  instr_tac Generated.ops_eq_65536
-
-theorem refines_neq_65536 : ∀ vm : Vm, 16 ≤ vm.stack.length →
-    Refines (stackRun Generated.ops_neq_65536 vm) (sem (.neqImm 65536) vm.stack) := by
-  instr_tac Generated.ops_neq_65536
-
-theorem refines_exp_65536 : ∀ vm : Vm, 16 ≤ vm.stack.length →
-    Refines (stackRun Generated.ops_exp_65536 vm) (sem (.expImm 65536) vm.stack) := by
-  instr_tac Generated.ops_exp_65536
-
-theorem refines_push_65536 : ∀ vm : Vm, 16 ≤ vm.stack.length →
-    Refines (stackRun Generated.ops_push_65536 vm) (sem (.push [65536]) vm.stack) := by
-  instr_tac Generated.ops_push_65536
-
-theorem refines_add_4294967295 : ∀ vm : Vm, 16 ≤ vm.stack.length →
-    Refines (stackRun Generated.ops_add_4294967295 vm) (sem (.addImm 4294967295) vm.stack) := by
-  instr_tac Generated.ops_add_4294967295
-
-theorem refines_sub_4294967295 : ∀ vm : Vm, 16 ≤ vm.stack.length →
-    Refines (stackRun Generated.ops_sub_4294967295 vm) (sem (.subImm 4294967295) vm.stack) := by
-  instr_tac Generated.ops_sub_4294967295
-
-theorem refines_mul_4294967295 : ∀ vm : Vm, 16 ≤ vm.stack.length →
-    Refines (stackRun Generated.ops_mul_4294967295 vm) (sem (.mulImm 4294967295) vm.stack) := by
-  instr_tac Generated.ops_mul_4294967295
-
-theorem refines_div_4294967295 : ∀ vm : Vm, 16 ≤ vm.stack.length →
-    Refines (stackRun Generated.ops_div_4294967295 vm) (sem (.divImm 4294967295) vm.stack) := by
-  instr_tac Generated.ops_div_4294967295
-
-theorem refines_eq_4294967295 : ∀ vm : Vm, 16 ≤ vm.stack.length →
-    Refines (stackRun Generated.ops_eq_4294967295 vm) (sem (.eqImm 4294967295) vm.stack) := by
-  instr_tac Generated.ops_eq_4294967295
-
-theorem refines_neq_4294967295 : ∀ vm : Vm, 16 ≤ vm.stack.length →
-    Refines (stackRun Generated.ops_neq_4294967295 vm) (sem (.neqImm 4294967295) vm.stack) := by
-  instr_tac Generated.ops_neq_4294967295
-
-theorem refines_exp_4294967295 : ∀ vm : Vm, 16 ≤ vm.stack.length →
-    Refines (stackRun Generated.ops_exp_4294967295 vm) (sem (.expImm 4294967295) vm.stack) := by
-  instr_tac Generated.ops_exp_4294967295
-
-theorem refines_push_4294967295 : ∀ vm : Vm, 16 ≤ vm.stack.length →
-    Refines (stackRun Generated.ops_push_4294967295 vm) (sem (.push [4294967295]) vm.stack) := by
-  instr_tac Generated.ops_push_4294967295
-
-theorem refines_add_4294967296 : ∀ vm : Vm, 16 ≤ vm.stack.length →
-    Refines (stackRun Generated.ops_add_4294967296 vm) (sem (.addImm 4294967296) vm.stack) := by
-  instr_tac Generated.ops_add_4294967296
-
-theorem refines_sub_4294967296 : ∀ vm : Vm, 16 ≤ vm.stack.length →
-    Refines (stackRun Generated.ops_sub_4294967296 vm) (sem (.subImm 4294967296) vm.stack) := by
-  instr_tac Generated.ops_sub_4294967296
-
-theorem refines_mul_4294967296 : ∀ vm : Vm, 16 ≤ vm.stack.length →
-    Refines (stackRun Generated.ops_mul_4294967296 vm) (sem (.mulImm 4294967296) vm.stack) := by
-  instr_tac Generated.ops_mul_4294967296
-
-theorem refines_div_4294967296 : ∀ vm : Vm, 16 ≤ vm.stack.length →
-    Refines (stackRun Generated.ops_div_4294967296 vm) (sem (.divImm 4294967296) vm.stack) := by
-  instr_tac Generated.ops_div_4294967296
-
-theorem refines_eq_4294967296 : ∀ vm : Vm, 16 ≤ vm.stack.length →
-    Refines (stackRun Generated.ops_eq_4294967296 vm) (sem (.eqImm 4294967296) vm.stack) := by
-  instr_tac Generated.ops_eq_4294967296
-
-theorem refines_neq_4294967296 : ∀ vm : Vm, 16 ≤ vm.stack.length →
-    Refines (stackRun Generated.ops_neq_4294967296 vm) (sem (.neqImm 4294967296) vm.stack) := by
-  instr_tac Generated.ops_neq_4294967296
-
-theorem refines_exp_4294967296 : ∀ vm : Vm, 16 ≤ vm.stack.length →
-    Refines (stackRun Generated.ops_exp_4294967296 vm) (sem (.expImm 4294967296) vm.stack) := by
-  instr_tac Generated.ops_exp_4294967296
-
-theorem refines_push_4294967296 : ∀ vm : Vm, 16 ≤ vm.stack.length →
-    Refines (stackRun Generated.ops_push_4294967296 vm) (sem (.push [4294967296]) vm.stack) := by
-  instr_tac Generated.ops_push_4294967296
-
-theorem refines_add_18446744069414584320 : ∀ vm : Vm, 16 ≤ vm.stack.length →
-    Refines (stackRun Generated.ops_add_18446744069414584320 vm) (sem (.addImm 18446744069414584320) vm.stack) := by
-  instr_tac Generated.ops_add_18446744069414584320
-
-theorem refines_sub_18446744069414584320 : ∀ vm : Vm, 16 ≤ vm.stack.length →
-    Refines (stackRun Generated.ops_sub_18446744069414584320 vm) (sem (.subImm 18446744069414584320) vm.stack) := by
-  instr_tac Generated.ops_sub_18446744069414584320
-
-theorem refines_mul_18446744069414584320 : ∀ vm : Vm, 16 ≤ vm.stack.length →
-    Refines (stackRun Generated.ops_mul_18446744069414584320 vm) (sem (.mulImm 18446744069414584320) vm.stack) := by
-  instr_tac Generated.ops_mul_18446744069414584320
-
-theorem refines_div_18446744069414584320 : ∀ vm : Vm, 16 ≤ vm.stack.length →
-    Refines (stackRun Generated.ops_div_18446744069414584320 vm) (sem (.divImm 18446744069414584320) vm.stack) := by
-  instr_tac Generated.ops_div_18446744069414584320
-
-theorem refines_eq_18446744069414584320 : ∀ vm : Vm, 16 ≤ vm.stack.length →
-    Refines (stackRun Generated.ops_eq_18446744069414584320 vm) (sem (.eqImm 18446744069414584320) vm.stack) := by
-  instr_tac Generated.ops_eq_18446744069414584320
-
-theorem refines_neq_18446744069414584320 : ∀ vm : Vm, 16 ≤ vm.stack.length →
-    Refines (stackRun Generated.ops_neq_18446744069414584320 vm) (sem (.neqImm 18446744069414584320) vm.stack) := by
-  instr_tac Generated.ops_neq_18446744069414584320
-
-theorem refines_exp_18446744069414584320 : ∀ vm : Vm, 16 ≤ vm.stack.length →
-    Refines (stackRun Generated.ops_exp_18446744069414584320 vm) (sem (.expImm 18446744069414584320) vm.stack) := by
-  instr_tac Generated.ops_exp_18446744069414584320
-
-theorem refines_push_18446744069414584320 : ∀ vm : Vm, 16 ≤ vm.stack.length →
-    Refines (stackRun Generated.ops_push_18446744069414584320 vm) (sem (.push [18446744069414584320]) vm.stack) := by
-  instr_tac Generated.ops_push_18446744069414584320
-
-theorem refines_add_9223372036854775813 : ∀ vm : Vm, 16 ≤ vm.stack.length →
-    Refines (stackRun Generated.ops_add_9223372036854775813 vm) (sem (.addImm 9223372036854775813) vm.stack) := by
-  instr_tac Generated.ops_add_9223372036854775813
-
-theorem refines_sub_9223372036854775813 : ∀ vm : Vm, 16 ≤ vm.stack.length →
-    Refines (stackRun Generated.ops_sub_9223372036854775813 vm) (sem (.subImm 9223372036854775813) vm.stack) := by
-  instr_tac Generated.ops_sub_9223372036854775813
-
-theorem refines_mul_9223372036854775813 : ∀ vm : Vm, 16 ≤ vm.stack.length →
-    Refines (stackRun Generated.ops_mul_9223372036854775813 vm) (sem (.mulImm 9223372036854775813) vm.stack) := by
-  instr_tac Generated.ops_mul_9223372036854775813
-
-theorem refines_div_9223372036854775813 : ∀ vm : Vm, 16 ≤ vm.stack.length →
-    Refines (stackRun Generated.ops_div_9223372036854775813 vm) (sem (.divImm 9223372036854775813) vm.stack) := by
-  instr_tac Generated.ops_div_9223372036854775813
-
-theorem refines_eq_9223372036854775813 : ∀ vm : Vm, 16 ≤ vm.stack.length →
-    Refines (stackRun Generated.ops_eq_9223372036854775813 vm) (sem (.eqImm 9223372036854775813) vm.stack) := by
-  instr_tac Generated.ops_eq_9223372036854775813
-
-theorem refines_neq_9223372036854775813 : ∀ vm : Vm, 16 ≤ vm.stack.length →
-    Refines (stackRun Generated.ops_neq_9223372036854775813 vm) (sem (.neqImm 9223372036854775813) vm.stack) := by
-  instr_tac Generated.ops_neq_9223372036854775813
-
-theorem refines_exp_9223372036854775813 : ∀ vm : Vm, 16 ≤ vm.stack.length →
-    Refines (stackRun Generated.ops_exp_9223372036854775813 vm) (sem (.expImm 9223372036854775813) vm.stack) := by
-  instr_tac Generated.ops_exp_9223372036854775813
-
-theorem refines_push_9223372036854775813 : ∀ vm : Vm, 16 ≤ vm.stack.length →
-    Refines (stackRun Generated.ops_push_9223372036854775813 vm) (sem (.push [9223372036854775813]) vm.stack) := by
-  instr_tac Generated.ops_push_9223372036854775813
-
-theorem refines_u32wrapping_add_0 : ∀ vm : Vm, 16 ≤ vm.stack.length →
-    Refines (stackRun Generated.ops_u32wrapping_add_0 vm) (sem (.u32wrappingAddImm 0) vm.stack) := by
-  instr_tac Generated.ops_u32wrapping_add_0
-
-theorem refines_u32overflowing_add_0 : ∀ vm : Vm, 16 ≤ vm.stack.length →
-    Refines (stackRun Generated.ops_u32overflowing_add_0 vm) (sem (.u32overflowingAddImm 0) vm.stack) := by
-  instr_tac Generated.ops_u32overflowing_add_0
-
-theorem refines_u32wrapping_sub_0 : ∀ vm : Vm, 16 ≤ vm.stack.length →
-    Refines (stackRun Generated.ops_u32wrapping_sub_0 vm) (sem (.u32wrappingSubImm 0) vm.stack) := by
-  instr_tac Generated.ops_u32wrapping_sub_0
-
-theorem refines_u32overflowing_sub_0 : ∀ vm : Vm, 16 ≤ vm.stack.length →
-    Refines (stackRun Generated.ops_u32overflowing_sub_0 vm) (sem (.u32overflowingSubImm 0) vm.stack) := by
-  instr_tac Generated.ops_u32overflowing_sub_0
-
-theorem refines_u32wrapping_mul_0 : ∀ vm : Vm, 16 ≤ vm.stack.length →
-    Refines (stackRun Generated.ops_u32wrapping_mul_0 vm) (sem (.u32wrappingMulImm 0) vm.stack) := by
-  instr_tac Generated.ops_u32wrapping_mul_0
-
-theorem refines_u32overflowing_mul_0 : ∀ vm : Vm, 16 ≤ vm.stack.length →
-    Refines (stackRun Generated.ops_u32overflowing_mul_0 vm) (sem (.u32overflowingMulImm 0) vm.stack) := by
-  instr_tac Generated.ops_u32overflowing_mul_0
-
-theorem refines_u32wrapping_add_1 : ∀ vm : Vm, 16 ≤ vm.stack.length →
-    Refines (stackRun Generated.ops_u32wrapping_add_1 vm) (sem (.u32wrappingAddImm 1) vm.stack) := by
-  instr_tac Generated.ops_u32wrapping_add_1
-
-theorem refines_u32overflowing_add_1 : ∀ vm : Vm, 16 ≤ vm.stack.length →
-    Refines (stackRun Generated.ops_u32overflowing_add_1 vm) (sem (.u32overflowingAddImm 1) vm.stack) := by
-  instr_tac Generated.ops_u32overflowing_add_1
-
-theorem refines_u32wrapping_sub_1 : ∀ vm : Vm, 16 ≤ vm.stack.length →
-    Refines (stackRun Generated.ops_u32wrapping_sub_1 vm) (sem (.u32wrappingSubImm 1) vm.stack) := by
-  instr_tac Generated.ops_u32wrapping_sub_1
-
-theorem refines_u32overflowing_sub_1 : ∀ vm : Vm, 16 ≤ vm.stack.length →
-    Refines (stackRun Generated.ops_u32overflowing_sub_1 vm) (sem (.u32overflowingSubImm 1) vm.stack) := by
-  instr_tac Generated.ops_u32overflowing_sub_1
-
-theorem refines_u32wrapping_mul_1 : ∀ vm : Vm, 16 ≤ vm.stack.length →
-    Refines (stackRun Generated.ops_u32wrapping_mul_1 vm) (sem (.u32wrappingMulImm 1) vm.stack) := by
-  instr_tac Generated.ops_u32wrapping_mul_1
-
-theorem refines_u32overflowing_mul_1 : ∀ vm : Vm, 16 ≤ vm.stack.length →
-    Refines (stackRun Generated.ops_u32overflowing_mul_1 vm) (sem (.u32overflowingMulImm 1) vm.stack) := by
-  instr_tac Generated.ops_u32overflowing_mul_1
-
-theorem refines_u32div_1 : ∀ vm : Vm, 16 ≤ vm.stack.length →
-    Refines (stackRun Generated.ops_u32div_1 vm) (sem (.u32divImm 1) vm.stack) := by
-  instr_tac Generated.ops_u32div_1
-
-theorem refines_u32mod_1 : ∀ vm : Vm, 16 ≤ vm.stack.length →
-    Refines (stackRun Generated.ops_u32mod_1 vm) (sem (.u32modImm 1) vm.stack) := by
-  instr_tac Generated.ops_u32mod_1
-
-theorem refines_u32divmod_1 : ∀ vm : Vm, 16 ≤ vm.stack.length →
-    Refines (stackRun Generated.ops_u32divmod_1 vm) (sem (.u32divmodImm 1) vm.stack) := by
-  instr_tac Generated.ops_u32divmod_1
-
-theorem refines_u32wrapping_add_2 : ∀ vm : Vm, 16 ≤ vm.stack.length →
-    Refines (stackRun Generated.ops_u32wrapping_add_2 vm) (sem (.u32wrappingAddImm 2) vm.stack) := by
-  instr_tac Generated.ops_u32wrapping_add_2
-
-theorem refines_u32overflowing_add_2 : ∀ vm : Vm, 16 ≤ vm.stack.length →
-    Refines (stackRun Generated.ops_u32overflowing_add_2 vm) (sem (.u32overflowingAddImm 2) vm.stack) := by
-  instr_tac Generated.ops_u32overflowing_add_2
-
-theorem refines_u32wrapping_sub_2 : ∀ vm : Vm, 16 ≤ vm.stack.length →
-    Refines (stackRun Generated.ops_u32wrapping_sub_2 vm) (sem (.u32wrappingSubImm 2) vm.stack) := by
-  instr_tac Generated.ops_u32wrapping_sub_2
-
-theorem refines_u32overflowing_sub_2 : ∀ vm : Vm, 16 ≤ vm.stack.length →
-    Refines (stackRun Generated.ops_u32overflowing_sub_2 vm) (sem (.u32overflowingSubImm 2) vm.stack) := by
-  instr_tac Generated.ops_u32overflowing_sub_2
-
-theorem refines_u32wrapping_mul_2 : ∀ vm : Vm, 16 ≤ vm.stack.length →
-    Refines (stackRun Generated.ops_u32wrapping_mul_2 vm) (sem (.u32wrappingMulImm 2) vm.stack) := by
-  instr_tac Generated.ops_u32wrapping_mul_2
-
-theorem refines_u32overflowing_mul_2 : ∀ vm : Vm, 16 ≤ vm.stack.length →
-    Refines (stackRun Generated.ops_u32overflowing_mul_2 vm) (sem (.u32overflowingMulImm 2) vm.stack) := by
-  instr_tac Generated.ops_u32overflowing_mul_2
-
-theorem refines_u32div_2 : ∀ vm : Vm, 16 ≤ vm.stack.length →
-    Refines (stackRun Generated.ops_u32div_2 vm) (sem (.u32divImm 2) vm.stack) := by
-  instr_tac Generated.ops_u32div_2
-
-theorem refines_u32mod_2 : ∀ vm : Vm, 16 ≤ vm.stack.length →
-    Refines (stackRun Generated.ops_u32mod_2 vm) (sem (.u32modImm 2) vm.stack) := by
-  instr_tac Generated.ops_u32mod_2
-
-theorem refines_u32divmod_2 : ∀ vm : Vm, 16 ≤ vm.stack.length →
-    Refines (stackRun Generated.ops_u32divmod_2 vm) (sem (.u32divmodImm 2) vm.stack) := by
-  instr_tac Generated.ops_u32divmod_2
-
-theorem refines_u32wrapping_add_3 : ∀ vm : Vm, 16 ≤ vm.stack.length →
-    Refines (stackRun Generated.ops_u32wrapping_add_3 vm) (sem (.u32wrappingAddImm 3) vm.stack) := by
-  instr_tac Generated.ops_u32wrapping_add_3
-
-theorem refines_u32overflowing_add_3 : ∀ vm : Vm, 16 ≤ vm.stack.length →
-    Refines (stackRun Generated.ops_u32overflowing_add_3 vm) (sem (.u32overflowingAddImm 3) vm.stack) := by
-  instr_tac Generated.ops_u32overflowing_add_3
-
-theorem refines_u32wrapping_sub_3 : ∀ vm : Vm, 16 ≤ vm.stack.length →
-    Refines (stackRun Generated.ops_u32wrapping_sub_3 vm) (sem (.u32wrappingSubImm 3) vm.stack) := by
-  instr_tac Generated.ops_u32wrapping_sub_3
-
-theorem refines_u32overflowing_sub_3 : ∀ vm : Vm, 16 ≤ vm.stack.length →
-    Refines (stackRun Generated.ops_u32overflowing_sub_3 vm) (sem (.u32overflowingSubImm 3) vm.stack) := by
-  instr_tac Generated.ops_u32overflowing_sub_3
-
-theorem refines_u32wrapping_mul_3 : ∀ vm : Vm, 16 ≤ vm.stack.length →
-    Refines (stackRun Generated.ops_u32wrapping_mul_3 vm) (sem (.u32wrappingMulImm 3) vm.stack) := by
-  instr_tac Generated.ops_u32wrapping_mul_3
-
-theorem refines_u32overflowing_mul_3 : ∀ vm : Vm, 16 ≤ vm.stack.length →
-    Refines (stackRun Generated.ops_u32overflowing_mul_3 vm) (sem (.u32overflowingMulImm 3) vm.stack) := by
-  instr_tac Generated.ops_u32overflowing_mul_3
-
-theorem refines_u32div_3 : ∀ vm : Vm, 16 ≤ vm.stack.length →
-    Refines (stackRun Generated.ops_u32div_3 vm) (sem (.u32divImm 3) vm.stack) := by
-  instr_tac Generated.ops_u32div_3
-
-theorem refines_u32mod_3 : ∀ vm : Vm, 16 ≤ vm.stack.length →
-    Refines (stackRun Generated.ops_u32mod_3 vm) (sem (.u32modImm 3) vm.stack) := by
-  instr_tac Generated.ops_u32mod_3
-
-theorem refines_u32divmod_3 : ∀ vm : Vm, 16 ≤ vm.stack.length →
-    Refines (stackRun Generated.ops_u32divmod_3 vm) (sem (.u32divmodImm 3) vm.stack) := by
-  instr_tac Generated.ops_u32divmod_3
-
-theorem refines_u32wrapping_add_7 : ∀ vm : Vm, 16 ≤ vm.stack.length →
-    Refines (stackRun Generated.ops_u32wrapping_add_7 vm) (sem (.u32wrappingAddImm 7) vm.stack) := by
-  instr_tac Generated.ops_u32wrapping_add_7
-
-theorem refines_u32overflowing_add_7 : ∀ vm : Vm, 16 ≤ vm.stack.length →
-    Refines (stackRun Generated.ops_u32overflowing_add_7 vm) (sem (.u32overflowingAddImm 7) vm.stack) := by
-  instr_tac Generated.ops_u32overflowing_add_7
-
-theorem refines_u32wrapping_sub_7 : ∀ vm : Vm, 16 ≤ vm.stack.length →
-    Refines (stackRun Generated.ops_u32wrapping_sub_7 vm) (sem (.u32wrappingSubImm 7) vm.stack) := by
-  instr_tac Generated.ops_u32wrapping_sub_7
-
-theorem refines_u32overflowing_sub_7 : ∀ vm : Vm, 16 ≤ vm.stack.length →
-    Refines (stackRun Generated.ops_u32overflowing_sub_7 vm) (sem (.u32overflowingSubImm 7) vm.stack) := by
-  instr_tac Generated.ops_u32overflowing_sub_7
-
-theorem refines_u32wrapping_mul_7 : ∀ vm : Vm, 16 ≤ vm.stack.length →
-    Refines (stackRun Generated.ops_u32wrapping_mul_7 vm) (sem (.u32wrappingMulImm 7) vm.stack) := by
-  instr_tac Generated.ops_u32wrapping_mul_7
-
-theorem refines_u32overflowing_mul_7 : ∀ vm : Vm, 16 ≤ vm.stack.length →
-    Refines (stackRun Generated.ops_u32overflowing_mul_7 vm) (sem (.u32overflowingMulImm 7) vm.stack) := by
-  instr_tac Generated.ops_u32overflowing_mul_7
-
-theorem refines_u32div_7 : ∀ vm : Vm, 16 ≤ vm.stack.length →
-    Refines (stackRun Generated.ops_u32div_7 vm) (sem (.u32divImm 7) vm.stack) := by
-  instr_tac Generated.ops_u32div_7
-
-theorem refines_u32mod_7 : ∀ vm : Vm, 16 ≤ vm.stack.length →
-    Refines (stackRun Generated.ops_u32mod_7 vm) (sem (.u32modImm 7) vm.stack) := by
-  instr_tac Generated.ops_u32mod_7
-
-theorem refines_u32divmod_7 : ∀ vm : Vm, 16 ≤ vm.stack.length →
-    Refines (stackRun Generated.ops_u32divmod_7 vm) (sem (.u32divmodImm 7) vm.stack) := by
-  instr_tac Generated.ops_u32divmod_7
-
-theorem refines_u32wrapping_add_65536 : ∀ vm : Vm, 16 ≤ vm.stack.length →
-    Refines (stackRun Generated.ops_u32wrapping_add_65536 vm) (sem (.u32wrappingAddImm 65536) vm.stack) := by
-  instr_tac Generated.ops_u32wrapping_add_65536
-
-theorem refines_u32overflowing_add_65536 : ∀ vm : Vm, 16 ≤ vm.stack.length →
-    Refines (stackRun Generated.ops_u32overflowing_add_65536 vm) (sem (.u32overflowingAddImm 65536) vm.stack) := by
-  instr_tac Generated.ops_u32overflowing_add_65536
-
-theorem refines_u32wrapping_sub_65536 : ∀ vm : Vm, 16 ≤ vm.stack.length →
-    Refines (stackRun Generated.ops_u32wrapping_sub_65536 vm) (sem (.u32wrappingSubImm 65536) vm.stack) := by
-  instr_tac Generated.ops_u32wrapping_sub_65536
-
-theorem refines_u32overflowing_sub_65536 : ∀ vm : Vm, 16 ≤ vm.stack.length →
-    Refines (stackRun Generated.ops_u32overflowing_sub_65536 vm) (sem (.u32overflowingSubImm 65536) vm.stack) := by
-  instr_tac Generated.ops_u32overflowing_sub_65536
-
-theorem refines_u32wrapping_mul_65536 : ∀ vm : Vm, 16 ≤ vm.stack.length →
-    Refines (stackRun Generated.ops_u32wrapping_mul_65536 vm) (sem (.u32wrappingMulImm 65536) vm.stack) := by
-  instr_tac Generated.ops_u32wrapping_mul_65536
-
-theorem refines_u32overflowing_mul_65536 : ∀ vm : Vm, 16 ≤ vm.stack.length →
-    Refines (stackRun Generated.ops_u32overflowing_mul_65536 vm) (sem (.u32overflowingMulImm 65536) vm.stack) := by
-  instr_tac Generated.ops_u32overflowing_mul_65536
-
-theorem refines_u32div_65536 : ∀ vm : Vm, 16 ≤ vm.stack.length →
-    Refines (stackRun Generated.ops_u32div_65536 vm) (sem (.u32divImm 65536) vm.stack) := by
-  instr_tac Generated.ops_u32div_65536
-
-theorem refines_u32mod_65536 : ∀ vm : Vm, 16 ≤ vm.stack.length →
-    Refines (stackRun Generated.ops_u32mod_65536 vm) (sem (.u32modImm 65536) vm.stack) := by
-  instr_tac Generated.ops_u32mod_65536
-
-theorem refines_u32divmod_65536 : ∀ vm : Vm, 16 ≤ vm.stack.length →
-    Refines (stackRun Generated.ops_u32divmod_65536 vm) (sem (.u32divmodImm 65536) vm.stack) := by
-  instr_tac Generated.ops_u32divmod_65536
-
-theorem refines_u32wrapping_add_4294967295 : ∀ vm : Vm, 16 ≤ vm.stack.length →
-    Refines (stackRun Generated.ops_u32wrapping_add_4294967295 vm) (sem (.u32wrappingAddImm 4294967295) vm.stack) := by
-  instr_tac Generated.ops_u32wrapping_add_4294967295
-
-theorem refines_u32overflowing_add_4294967295 : ∀ vm : Vm, 16 ≤ vm.stack.length →
-    Refines (stackRun Generated.ops_u32overflowing_add_4294967295 vm) (sem (.u32overflowingAddImm 4294967295) vm.stack) := by
-  instr_tac Generated.ops_u32overflowing_add_4294967295
-
-theorem refines_u32wrapping_sub_4294967295 : ∀ vm : Vm, 16 ≤ vm.stack.length →
-    Refines (stackRun Generated.ops_u32wrapping_sub_4294967295 vm) (sem (.u32wrappingSubImm 4294967295) vm.stack) := by
-  instr_tac Generated.ops_u32wrapping_sub_4294967295
-
-theorem refines_u32overflowing_sub_4294967295 : ∀ vm : Vm, 16 ≤ vm.stack.length →
-    Refines (stackRun Generated.ops_u32overflowing_sub_4294967295 vm) (sem (.u32overflowingSubImm 4294967295) vm.stack) := by
-  instr_tac Generated.ops_u32overflowing_sub_4294967295
-
-theorem refines_u32wrapping_mul_4294967295 : ∀ vm : Vm, 16 ≤ vm.stack.length →
-    Refines (stackRun Generated.ops_u32wrapping_mul_4294967295 vm) (sem (.u32wrappingMulImm 4294967295) vm.stack) := by
-  instr_tac Generated.ops_u32wrapping_mul_4294967295
-
-theorem refines_u32overflowing_mul_4294967295 : ∀ vm : Vm, 16 ≤ vm.stack.length →
-    Refines (stackRun Generated.ops_u32overflowing_mul_4294967295 vm) (sem (.u32overflowingMulImm 4294967295) vm.stack) := by
-  instr_tac Generated.ops_u32overflowing_mul_4294967295
-
-theorem refines_u32div_4294967295 : ∀ vm : Vm, 16 ≤ vm.stack.length →
-    Refines (stackRun Generated.ops_u32div_4294967295 vm) (sem (.u32divImm 4294967295) vm.stack) := by
-  instr_tac Generated.ops_u32div_4294967295
-
-theorem refines_u32mod_4294967295 : ∀ vm : Vm, 16 ≤ vm.stack.length →
-    Refines (stackRun Generated.ops_u32mod_4294967295 vm) (sem (.u32modImm 4294967295) vm.stack) := by
-  instr_tac Generated.ops_u32mod_4294967295
-
-theorem refines_u32divmod_4294967295 : ∀ vm : Vm, 16 ≤ vm.stack.length →
-    Refines (stackRun Generated.ops_u32divmod_4294967295 vm) (sem (.u32divmodImm 4294967295) vm.stack) := by
-  instr_tac Generated.ops_u32divmod_4294967295
-
-theorem refines_push_1_2 : ∀ vm : Vm, 16 ≤ vm.stack.length →
-    Refines (stackRun Generated.ops_push_1_2 vm) (sem (.push [1, 2]) vm.stack) := by
-  instr_tac Generated.ops_push_1_2
-
-theorem refines_push_1_2_3_4 : ∀ vm : Vm, 16 ≤ vm.stack.length →
-    Refines (stackRun Generated.ops_push_1_2_3_4 vm) (sem (.push [1, 2, 3, 4]) vm.stack) := by
-  instr_tac Generated.ops_push_1_2_3_4
-
-theorem refines_push_18446744069414584320_0_4294967296_1_2_3_4_5_6_7_8_9_10_11_12_13 : ∀ vm : Vm, 16 ≤ vm.stack.length →
-    Refines (stackRun Generated.ops_push_18446744069414584320_0_4294967296_1_2_3_4_5_6_7_8_9_10_11_12_13 vm) (sem (.push [18446744069414584320, 0, 4294967296, 1, 2, 3, 4, 5, 6, 7, 8, 9, 10, 11, 12, 13]) vm.stack) := by
-  instr_tac Generated.ops_push_18446744069414584320_0_4294967296_1_2_3_4_5_6_7_8_9_10_11_12_13
-
-end Miden.C05
+import Miden.Props.C05Auto.P0
+import Miden.Props.C05Auto.P1
+import Miden.Props.C05Auto.P2
+import Miden.Props.C05Auto.P3
